@@ -1,7 +1,10 @@
 // C11: hostile or broken peers cannot crash, wedge or bypass size limits.
 //
 // Victim: a real nng socket of every protocol (cooked and raw) listening on
-// socket://, tcp, ipc, ws or udp with NNG_OPT_RECVMAXSZ in {0, 64, 1 MiB}.
+// socket://, tcp, ipc, ws or udp - or dialing a raw tcp / ipc / websocket /
+// udp listener of this harness, again after every session - with
+// NNG_OPT_RECVMAXSZ in {0, 64, 1 MiB} set on the socket, on the endpoint
+// itself (the socket says something else) or changed on the live endpoint.
 // Attacker: a raw peer driven by this harness that plays a grammar based
 // session (valid handshake + valid frames) with ONE seeded mutation, or a
 // truncation of a valid session at a byte offset, and then closes (FIN, RST,
@@ -17,9 +20,21 @@
 //  (4) a control client connected BEFORE the session still performs one
 //      exchange afterwards, was not disconnected, and a NEW client can
 //      connect and do the same,
-//  (5) CPU time of the process in a 150 ms idle window < 30 % of one core.
+//      (dialing victim: the bystander is a second dialer of the same socket
+//      to a well-behaved nng listener; the hostile server's dialer must come
+//      back within 8 s after every session),
+//  (5) CPU time of the process in a 150 ms idle window < 30 % of one core
+//      (sampled sessions, every victim of the truncation sweep, and whenever
+//      a 30-40 ms probe - every 16th cut, every victim's end, every time the
+//      library does not get quiet - sees more than 25 %),
+//  (6) the limit read back from the endpoint and from every new pipe is the
+//      one that was configured (udp: at most 65000),
+//  (7) connections that send 0..7 bytes of an SP handshake and go silent are
+//      closed by the library (10 s bound; looked at after >= 25 s).
 #include "vfh.h"
 #include "core/nng_impl.h"
+#include "supplemental/websocket/base64.h"
+#include "supplemental/websocket/sha1.h"
 #include <dlfcn.h>
 
 #include <arpa/inet.h>
@@ -329,8 +344,14 @@ typedef struct {
 	uint32_t    seen_seq; // highest control sequence number received
 	int         rem_base; // removals seen while the connection was being established
 	_Atomic int lport;    // local port of its (udp) pipe
+	_Atomic int pport;    // and the peer's
 	uint64_t    t_conn;   // when it was connected
 	long        disc_base[16];
+	// dialing victim: the control client is an nng listener and the victim's
+	// socket has a second, well-behaved dialer to it
+	bool        has_vd;
+	nng_dialer  vd;
+	char        ipcpath[120];
 } ctlsock;
 
 typedef struct {
@@ -350,19 +371,48 @@ typedef struct {
 	int           oldk;
 	uint32_t      serial;
 	uint32_t      ctl_seq;
+	uint32_t      ctl_gen;
 	uint32_t      req_seq;
 	sess_exp     *sessions;
 	const char   *cur_mut;
+	char          last_mut[48]; // mutation of the previous session
 	long          rx_total;
 	int           lingering; // pipes known to stay: udp peers that vanished without DISC, zombies
 	bool          vanished;  // the current udp session ended without DISC
 	uint64_t      sess_t0;   // start of the current session and log counters then
 	long          inact0, disc0[16];
 	bool          wedged;    // a new client could not connect: stop using this victim
+	// dialing victim: the hostile peer is a raw listener of this harness that
+	// the victim's socket dials (and dials again after every session)
+	bool          dial;
+	nng_dialer    d;
+	int           lfd;        // raw listening socket (udp: the bound datagram socket)
+	uint64_t      idle_since; // when the last hostile connection was given up
+	bool          upeer_known; // udp: lfd is connected to the dialer's address
+	// where the limit in force comes from
+	size_t        sockmax;    // NNG_OPT_RECVMAXSZ of the socket
+	const char   *limsrc;     // "sock", "ep" (set on the endpoint), "chg" (changed on the live endpoint)
+	_Atomic int   pipe_limit_bad; // a pipe reported another RECVMAXSZ than the one in force
+	_Atomic unsigned long pipe_limit_got, pipe_limit_want;
+	_Atomic int   pipe_limit_checked;
+	_Atomic unsigned long want_ep, want_sock; // what pipes of the hostile endpoint / of other dialers must report
+	_Atomic int   d_id;
+	uint64_t      t_open;
+	bool          in_probe;
 } victim;
 
 static uint32_t g_inst;
 static long     g_case;
+static bool     g_trunc; // truncation sweep (stats are kept per mode)
+
+// transport name of a victim as used in violation keys and classes
+static const char *
+vtn(const victim *v)
+{
+	static const char *dn[T_N] = { "dial-sockfd", "dial-tcp", "dial-ipc", "dial-ws", "dial-udp" };
+	return v->dial ? dn[v->tran] : tnames[v->tran];
+}
+static void     fd_nonblock(int fd);
 
 // ---------------------------------------------------------------- protocol header model
 static int
@@ -551,7 +601,7 @@ oracle_rx(victim *v, nng_msg *m)
 	v->rx_total++;
 	vf_stat("app_received", 1);
 	if (v->efflimit > 0 && blen > v->efflimit) {
-		snprintf(key, sizeof(key), "C11/oversize-delivered/%s/%s", tnames[v->tran], vp->name);
+		snprintf(key, sizeof(key), "C11/oversize-delivered/%s/%s", vtn(v), vp->name);
 		vf_violation(key, "application received a message of %zu body bytes although RECVMAXSZ is %zu (mutation %s)", blen, v->recvmax, v->cur_mut);
 		nng_msg_free(m);
 		return;
@@ -581,7 +631,7 @@ oracle_rx(victim *v, nng_msg *m)
 			vf_stat("delivered_matched", 1);
 			if (vp->id_once && se->ndelivered > 1) {
 				snprintf(key, sizeof(key), "C11/delivered/duplicate-reply/%s", vp->name);
-				vf_violation(key, "%s/%s: a second reply to one request was delivered (session %u, %s)", tnames[v->tran], vp->name, se->serial, se->mut);
+				vf_violation(key, "%s/%s: a second reply to one request was delivered (session %u, %s)", vtn(v), vp->name, se->serial, se->mut);
 			}
 			nng_msg_free(m);
 			return;
@@ -589,7 +639,7 @@ oracle_rx(victim *v, nng_msg *m)
 	}
 	if (hdr_mismatch) {
 		snprintf(key, sizeof(key), "C11/raw-header-mismatch/%s", vp->name);
-		vf_violation(key, "%s/%s: the delivered body (%zu bytes) matches a deliverable frame but the header (%zu bytes, %zu of them local) is not the %zu header bytes of the wire (mutation %s)", tnames[v->tran], vp->name, blen, hlen, skip, mm_hlen, v->cur_mut);
+		vf_violation(key, "%s/%s: the delivered body (%zu bytes) matches a deliverable frame but the header (%zu bytes, %zu of them local) is not the %zu header bytes of the wire (mutation %s)", vtn(v), vp->name, blen, hlen, skip, mm_hlen, v->cur_mut);
 		nng_msg_free(m);
 		return;
 	}
@@ -610,7 +660,7 @@ oracle_rx(victim *v, nng_msg *m)
 	}
 	snprintf(key, sizeof(key), "C11/delivered/%s/%s", why, vp->name);
 	vf_violation(key, "%s/%s recvmax=%zu ttl=%d: application received a message (header %zu, body %zu bytes, first bytes %02x%02x%02x%02x) that the reference decoder does not allow: %s (session %u mutation %s; current mutation %s)",
-	    tnames[v->tran], vp->name, v->recvmax, v->ttl, hlen, blen, blen > 0 ? body[0] : 0, blen > 1 ? body[1] : 0, blen > 2 ? body[2] : 0, blen > 3 ? body[3] : 0, why, se ? se->serial : 0, se ? se->mut : "?", v->cur_mut);
+	    vtn(v), vp->name, v->recvmax, v->ttl, hlen, blen, blen > 0 ? body[0] : 0, blen > 1 ? body[1] : 0, blen > 2 ? body[2] : 0, blen > 3 ? body[3] : 0, why, se ? se->serial : 0, se ? se->mut : "?", v->cur_mut);
 	nng_msg_free(m);
 }
 
@@ -633,9 +683,23 @@ static void
 v_pipe_cb(nng_pipe p, nng_pipe_ev ev, void *arg)
 {
 	victim *v = arg;
-	(void) p;
-	if (ev == NNG_PIPE_EV_ADD_PRE) atomic_fetch_add(&v->pre, 1);
-	else if (ev == NNG_PIPE_EV_ADD_POST) atomic_fetch_add(&v->post, 1);
+	if (ev == NNG_PIPE_EV_ADD_PRE) {
+		// "per-endpoint size limits copied to each pipe": what the pipe reports
+		// must be the limit in force on the endpoint that made it (udp keeps a
+		// copy per pipe; the stream transports answer from their endpoint)
+		size_t got = 0;
+		if (nng_pipe_get_size(p, NNG_OPT_RECVMAXSZ, &got) == 0) {
+			bool   own  = v->dial ? nng_dialer_id(nng_pipe_dialer(p)) == atomic_load(&v->d_id) : true;
+			size_t want = own ? atomic_load(&v->want_ep) : atomic_load(&v->want_sock);
+			atomic_fetch_add(&v->pipe_limit_checked, 1);
+			if (got != want && !atomic_load(&v->pipe_limit_bad)) {
+				atomic_store(&v->pipe_limit_got, (unsigned long) got);
+				atomic_store(&v->pipe_limit_want, (unsigned long) want);
+				atomic_store(&v->pipe_limit_bad, 1);
+			}
+		}
+		atomic_fetch_add(&v->pre, 1);
+	} else if (ev == NNG_PIPE_EV_ADD_POST) atomic_fetch_add(&v->post, 1);
 	else if (ev == NNG_PIPE_EV_REM_POST) atomic_fetch_add(&v->rem, 1);
 }
 
@@ -646,6 +710,7 @@ c_pipe_cb(nng_pipe p, nng_pipe_ev ev, void *arg)
 	if (ev == NNG_PIPE_EV_ADD_POST) {
 		nng_sockaddr sa;
 		if (nng_pipe_self_addr(p, &sa) == 0 && sa.s_family == NNG_AF_INET) atomic_store(&c->lport, (int) ntohs(sa.s_in.sa_port));
+		if (nng_pipe_peer_addr(p, &sa) == 0 && sa.s_family == NNG_AF_INET) atomic_store(&c->pport, (int) ntohs(sa.s_in.sa_port));
 		atomic_fetch_add(&c->add, 1);
 	} else if (ev == NNG_PIPE_EV_REM_POST) {
 		atomic_fetch_add(&c->rem, 1);
@@ -666,6 +731,7 @@ wait_atomic_ge(atomic_int *a, int want, int timeout_ms, victim *v)
 }
 
 static void settle(victim *v, int ms);
+static void spin_probe(victim *v, const char *when, int ms);
 static int
 live_ctl(const victim *v)
 {
@@ -683,28 +749,125 @@ sockfd_pair_to_victim(victim *v)
 	return sv[1];
 }
 
+static size_t
+udp_clamp(size_t v)
+{
+	return v == 0 || v > 65000 ? 65000 : v;
+}
+
+// what the endpoint (and every pipe it makes) must enforce when RECVMAXSZ is val
+static size_t
+limit_for(int tran, size_t val)
+{
+	return tran == T_UDP ? udp_clamp(val) : val;
+}
+
 static void
-victim_open(victim *v, const vproto *vp, int tran, size_t recvmax, int ttl)
+limit_violation(victim *v, const char *what, size_t got, size_t want)
+{
+	char key[160];
+	snprintf(key, sizeof(key), "C11/limit-not-applied/%s/%s", tnames[v->tran], what);
+	vf_violation(key, "%s/%s %s: NNG_OPT_RECVMAXSZ reads %zu although the value in force (%s) is %zu (socket %zu): the size limit configured by the application is not the one that protects this connection",
+	    tnames[v->tran], v->vp->name, what, got, v->limsrc, want, v->sockmax);
+}
+
+// the endpoint that faces the hostile peer
+static int
+ep_get_size(victim *v, size_t *got)
+{
+	return v->dial ? nng_dialer_get_size(v->d, NNG_OPT_RECVMAXSZ, got) : nng_listener_get_size(v->l, NNG_OPT_RECVMAXSZ, got);
+}
+static int
+ep_set_size(victim *v, size_t val)
+{
+	return v->dial ? nng_dialer_set_size(v->d, NNG_OPT_RECVMAXSZ, val) : nng_listener_set_size(v->l, NNG_OPT_RECVMAXSZ, val);
+}
+
+static void
+ep_check_limit(victim *v)
+{
+	size_t got = 12345, want = limit_for(v->tran, v->recvmax);
+	v->efflimit = want;
+	atomic_store(&v->want_ep, (unsigned long) want);
+	atomic_store(&v->want_sock, (unsigned long) limit_for(v->tran, v->sockmax));
+	int rv = ep_get_size(v, &got);
+	if (rv != 0) vf_harness_fail("get RECVMAXSZ of the %s endpoint: %s", vtn(v), nng_strerror(rv));
+	vf_stat("limit_checks_endpoint", 1);
+	if (got != want) limit_violation(v, v->dial ? "dialer" : "listener", got, want);
+}
+
+// sockmax: NNG_OPT_RECVMAXSZ of the socket; recvmax: the value in force on the
+// endpoint that faces the hostile peer (set on the endpoint itself when the
+// two differ); dial: the victim dials a raw listener of this harness
+static void
+victim_open(victim *v, const vproto *vp, int tran, size_t sockmax, size_t recvmax, int ttl, bool dial)
 {
 	int rv;
 	memset(v, 0, sizeof(*v));
 	v->vp      = vp;
 	v->tran    = tran;
 	v->recvmax = recvmax;
+	v->sockmax = sockmax;
+	v->limsrc  = sockmax == recvmax ? "sock" : "ep";
+	v->dial    = dial;
+	v->lfd     = -1;
 	v->inst    = ++g_inst;
 	v->cur_mut = "-";
+	v->t_open  = vf_now_ns();
+	if (dial && tran == T_SOCKFD) vf_harness_fail("socket:// cannot dial");
 	if ((rv = vp->open(&v->s)) != 0) vf_harness_fail("open %s: %s", vp->name, nng_strerror(rv));
-	if ((rv = nng_socket_set_size(v->s, NNG_OPT_RECVMAXSZ, recvmax)) != 0) vf_harness_fail("recvmaxsz: %s", nng_strerror(rv));
+	if ((rv = nng_socket_set_size(v->s, NNG_OPT_RECVMAXSZ, sockmax)) != 0) vf_harness_fail("recvmaxsz: %s", nng_strerror(rv));
 	nng_socket_set_ms(v->s, NNG_OPT_RECVTIMEO, 3);
 	nng_socket_set_ms(v->s, NNG_OPT_SENDTIMEO, 200);
+	nng_socket_set_ms(v->s, NNG_OPT_RECONNMINT, 1);
+	nng_socket_set_ms(v->s, NNG_OPT_RECONNMAXT, 5);
 	(void) nng_socket_set_int(v->s, NNG_OPT_MAXTTL, ttl);
 	if (nng_socket_get_int(v->s, NNG_OPT_MAXTTL, &v->ttl) != 0) v->ttl = 8;
 	if (!strcmp(vp->name, "sub")) nng_sub0_socket_subscribe(v->s, "", 0);
 	if (!strcmp(vp->name, "surveyor")) nng_socket_set_ms(v->s, NNG_OPT_SURVEYOR_SURVEYTIME, 20000);
 	if (!strcmp(vp->name, "req")) nng_socket_set_ms(v->s, NNG_OPT_REQ_RESENDTIME, NNG_DURATION_INFINITE);
+	atomic_store(&v->want_ep, (unsigned long) limit_for(tran, recvmax));
+	atomic_store(&v->want_sock, (unsigned long) limit_for(tran, sockmax));
 	if (nng_pipe_notify(v->s, NNG_PIPE_EV_ADD_PRE, v_pipe_cb, v) != 0 ||
 	    nng_pipe_notify(v->s, NNG_PIPE_EV_ADD_POST, v_pipe_cb, v) != 0 ||
 	    nng_pipe_notify(v->s, NNG_PIPE_EV_REM_POST, v_pipe_cb, v) != 0) vf_harness_fail("pipe_notify");
+	if (dial) {
+		// the raw listener first, then a dialer that keeps coming back to it
+		uint16_t port = 0;
+		switch (tran) {
+		case T_TCP:
+		case T_WS:
+			if ((v->lfd = vf_tcp_listen(&port)) < 0) vf_harness_fail("raw tcp listener: %s", strerror(errno));
+			v->port = port;
+			snprintf(v->url, sizeof(v->url), tran == T_TCP ? "tcp://127.0.0.1:%d" : "ws://127.0.0.1:%d/c11", v->port);
+			break;
+		case T_IPC:
+			snprintf(v->ipcpath, sizeof(v->ipcpath), "/tmp/vf-c11-%d-%u.sock", (int) getpid(), v->inst);
+			if ((v->lfd = vf_unix_listen(v->ipcpath)) < 0) vf_harness_fail("raw ipc listener: %s", strerror(errno));
+			snprintf(v->url, sizeof(v->url), "ipc://%s", v->ipcpath);
+			break;
+		case T_UDP: {
+			struct sockaddr_in sa;
+			socklen_t          sl = sizeof(sa);
+			memset(&sa, 0, sizeof(sa));
+			sa.sin_family      = AF_INET;
+			sa.sin_addr.s_addr = htonl(INADDR_LOOPBACK);
+			if ((v->lfd = socket(AF_INET, SOCK_DGRAM | SOCK_CLOEXEC, 0)) < 0 || bind(v->lfd, (struct sockaddr *) &sa, sizeof(sa)) != 0 ||
+			    getsockname(v->lfd, (struct sockaddr *) &sa, &sl) != 0) vf_harness_fail("raw udp socket: %s", strerror(errno));
+			v->port = ntohs(sa.sin_port);
+			snprintf(v->url, sizeof(v->url), "udp://127.0.0.1:%d", v->port);
+			break;
+		}
+		}
+		fd_nonblock(v->lfd);
+		if ((rv = nng_dialer_create(&v->d, v->s, v->url)) != 0) vf_harness_fail("dialer_create %s: %s", v->url, nng_strerror(rv));
+		atomic_store(&v->d_id, nng_dialer_id(v->d));
+		if (sockmax != recvmax && (rv = ep_set_size(v, recvmax)) != 0) vf_harness_fail("dialer RECVMAXSZ %zu: %s", recvmax, nng_strerror(rv));
+		ep_check_limit(v);
+		if ((rv = nng_dialer_start(v->d, NNG_FLAG_NONBLOCK)) != 0) vf_harness_fail("dialer_start %s: %s", v->url, nng_strerror(rv));
+		v->idle_since = vf_now_ns();
+		return;
+	}
 	switch (tran) {
 	case T_SOCKFD: snprintf(v->url, sizeof(v->url), "socket://"); break;
 	case T_TCP: snprintf(v->url, sizeof(v->url), "tcp://127.0.0.1:0"); break;
@@ -717,6 +880,7 @@ victim_open(victim *v, const vproto *vp, int tran, size_t recvmax, int ttl)
 	}
 	for (int attempt = 0;; attempt++) {
 		if ((rv = nng_listener_create(&v->l, v->s, v->url)) != 0) vf_harness_fail("listener_create %s: %s", v->url, nng_strerror(rv));
+		if (sockmax != recvmax && (rv = ep_set_size(v, recvmax)) != 0) vf_harness_fail("listener RECVMAXSZ %zu: %s", recvmax, nng_strerror(rv));
 		if ((rv = nng_listener_start(v->l, 0)) == 0) break;
 		// the shared machine can run out of ephemeral ports (TIME_WAIT):
 		// fall back to explicit ports below the ephemeral range
@@ -726,28 +890,43 @@ victim_open(victim *v, const vproto *vp, int tran, size_t recvmax, int ttl)
 		snprintf(v->url, sizeof(v->url), "%s://127.0.0.1:%d%s", tran == T_TCP ? "tcp" : tran == T_WS ? "ws" : "udp", port, tran == T_WS ? "/c11" : "");
 		vf_stat("listen_port_retries", 1);
 	}
-	size_t got = 12345;
-	if (nng_listener_get_size(v->l, NNG_OPT_RECVMAXSZ, &got) == 0) {
-		if (tran == T_UDP) {
-			v->efflimit = got;
-		} else if (got != recvmax) {
-			vf_harness_fail("listener RECVMAXSZ %zu != socket %zu", got, recvmax);
-		} else {
-			v->efflimit = recvmax;
-		}
-	} else {
-		v->efflimit = recvmax;
-	}
+	// The limit the decoder works with is the one the application asked for,
+	// never what the library says it uses (udp: at most 65000 per datagram)
+	ep_check_limit(v);
 	if (tran == T_TCP || tran == T_WS || tran == T_UDP) {
 		if ((rv = nng_listener_get_int(v->l, NNG_OPT_BOUND_PORT, &v->port)) != 0) vf_harness_fail("bound port: %s", nng_strerror(rv));
 	}
+}
+
+// Change NNG_OPT_RECVMAXSZ on the live endpoint: connections made from now on
+// get the new value, the ones that exist keep theirs.
+static void
+victim_change_limit(victim *v, size_t val)
+{
+	if (v->tran == T_UDP) return; // refused once started (NNG_EBUSY): nothing to observe
+	int rv = ep_set_size(v, val);
+	if (rv != 0) {
+		vf_stat("limit_change_refused", 1);
+		return;
+	}
+	v->recvmax = val;
+	v->limsrc  = "chg";
+	ep_check_limit(v);
+	// a connection the dialer has already made (it waits in the raw listener's
+	// queue) may carry the old value: it is given up before the next session
+	v->idle_since = 0;
+	vf_stat("limit_changes", 1);
 }
 
 static void
 ctl_close(victim *v, int k)
 {
 	if (v->ctl[k].open) {
+		// (a dialer left behind on the victim would dial the dead address for ever)
+		if (v->ctl[k].has_vd) nng_dialer_close(v->ctl[k].vd);
+		v->ctl[k].has_vd = false;
 		nng_socket_close(v->ctl[k].s);
+		if (v->ctl[k].ipcpath[0]) unlink(v->ctl[k].ipcpath);
 		v->ctl[k].open = false;
 	}
 }
@@ -773,6 +952,32 @@ ctl_connect(victim *v, int k)
 	nng_pipe_notify(c->s, NNG_PIPE_EV_ADD_POST, c_pipe_cb, c);
 	nng_pipe_notify(c->s, NNG_PIPE_EV_REM_POST, c_pipe_cb, c);
 	int post0 = atomic_load(&v->post);
+	if (v->dial) {
+		// the well-behaved peer listens and the victim's socket gets a second
+		// dialer: "the other connections" of a dialing socket
+		nng_listener cl;
+		int          cport = 0;
+		switch (v->tran) {
+		case T_TCP: snprintf(durl, sizeof(durl), "tcp://127.0.0.1:0"); break;
+		case T_WS: snprintf(durl, sizeof(durl), "ws://127.0.0.1:0/c11"); break;
+		case T_UDP: snprintf(durl, sizeof(durl), "udp://127.0.0.1:0"); break;
+		default:
+			snprintf(c->ipcpath, sizeof(c->ipcpath), "/tmp/vf-c11-%d-%u-c%u.sock", (int) getpid(), v->inst, ++v->ctl_gen);
+			snprintf(durl, sizeof(durl), "ipc://%s", c->ipcpath);
+			break;
+		}
+		if ((rv = nng_listener_create(&cl, c->s, durl)) != 0 || (rv = nng_listener_start(cl, 0)) != 0) vf_harness_fail("ctl listen %s: %s", durl, nng_strerror(rv));
+		if (v->tran != T_IPC) {
+			if ((rv = nng_listener_get_int(cl, NNG_OPT_BOUND_PORT, &cport)) != 0) vf_harness_fail("ctl bound port: %s", nng_strerror(rv));
+			snprintf(durl, sizeof(durl), "%s://127.0.0.1:%d%s", v->tran == T_TCP ? "tcp" : v->tran == T_WS ? "ws" : "udp", cport, v->tran == T_WS ? "/c11" : "");
+		}
+		if ((rv = nng_dialer_create(&c->vd, v->s, durl)) != 0 || (rv = nng_dialer_start(c->vd, NNG_FLAG_NONBLOCK)) != 0) vf_harness_fail("victim's dialer to the control listener %s: %s", durl, nng_strerror(rv));
+		c->has_vd = true;
+		if (!wait_atomic_ge(&c->add, 1, 8000, v)) return false;
+		// (the hostile dialer gets no pipe unless a session is being played)
+		if (!wait_atomic_ge(&v->post, post0 + 1, v->tran == T_UDP ? 300 : 8000, v)) return v->tran == T_UDP;
+		return true;
+	}
 	if (v->tran == T_SOCKFD) {
 		// socket:// has no dialer that would try again: when a single-peer
 		// victim refuses the connection because a (dead, not yet noticed)
@@ -1049,6 +1254,8 @@ victim_close(victim *v)
 	ctl_close(v, 0);
 	ctl_close(v, 1);
 	nng_socket_close(v->s);
+	if (v->lfd >= 0) close(v->lfd);
+	v->lfd = -1;
 	if (v->ipcpath[0]) unlink(v->ipcpath);
 	se_free_all(v);
 }
@@ -1095,11 +1302,17 @@ settle(victim *v, int ms)
 				if (v->lingering < 0) v->lingering = 0;
 			} else if (extra > 0) {
 				vf_stat("zombie_pipes", extra);
-				vf_class("zombie-pipe/%s/%s/%s", tnames[v->tran], v->vp->name, v->cur_mut);
+				vf_class("zombie-pipe/%s/%s/%s", vtn(v), v->vp->name, v->cur_mut);
 				v->lingering += extra;
 				zombie_seen[v->tran] = true;
 			} else {
 				vf_stat("settle_timeouts", 1);
+			}
+			// not quiet, or a pipe without a peer: is something going round in circles?
+			if ((v->tran != T_UDP || extra <= 0) && !v->in_probe) {
+				v->in_probe = true;
+				spin_probe(v, "settle-timeout", 40);
+				v->in_probe = false;
 			}
 			if (vf_verbose) fprintf(stderr, "  settle timeout: pipes=%d pre=%d rem=%d live=%d inflight=%ld mut=%s\n", vf_pipe_count(v->s), atomic_load(&v->pre), atomic_load(&v->rem), live_ctl(v), vf_inflight(), v->cur_mut);
 			return;
@@ -1162,6 +1375,7 @@ spin_window(victim *v, const char *when)
 	vf_ev_hook(NULL);
 #endif
 	vf_stat("spin_windows", 1);
+	vf_stat(g_trunc ? "spin_windows_trunc" : "spin_windows_mut", 1);
 	if (c1 - c0 > 0.30 * 0.150 && c1 - c0 > 0.30 * wall) {
 		char    key[160], who[128] = "?";
 		Dl_info di;
@@ -1170,10 +1384,35 @@ spin_window(victim *v, const char *when)
 			snprintf(who, sizeof(who), "%s+0x%lx", di.dli_sname ? di.dli_sname : "exe", (unsigned long) (cb - (uintptr_t) (di.dli_sname ? di.dli_saddr : di.dli_fbase)));
 		}
 		long nexp = vf_ev_count(NNI_VE_AIO_EXPIRE) - e0, npoll = vf_ev_count(NNI_VE_POLL_BEGIN) - p0;
-		snprintf(key, sizeof(key), "C11/spin/%s/%s", tnames[v->tran], nexp > 500 ? "timer-storm" : npoll > 500 ? "poller-storm" : "other");
-		vf_class("spin/%s/%s/%s/%s", tnames[v->tran], v->vp->name, when, v->cur_mut);
+		snprintf(key, sizeof(key), "C11/spin/%s/%s", vtn(v), nexp > 500 ? "timer-storm" : npoll > 500 ? "poller-storm" : "other");
+		vf_class("spin/%s/%s/%s/%s", vtn(v), v->vp->name, when, v->cur_mut);
 		vf_violation(key, "%s: process used %.0f ms of CPU in a %.0f ms idle window %s (mutation %s); meanwhile %ld timers expired (last callback %s), %ld tasks were dispatched, the pollers woke %ld times",
 		    v->vp->name, (c1 - c0) * 1e3, wall * 1e3, when, v->cur_mut, vf_ev_count(NNI_VE_AIO_EXPIRE) - e0, who, vf_ev_count(NNI_VE_TASK_ENQ) - t0e, vf_ev_count(NNI_VE_POLL_BEGIN) - p0);
+	}
+	pump(v);
+}
+
+// Cheap look for the same thing: a short idle window whose only consequence is
+// that the real one (above) is opened.  It is more sensitive than the verdict
+// (25 % of a core) so that it never hides what the window would report.
+static void
+spin_probe(victim *v, const char *when, int ms)
+{
+	uint64_t qend = vf_now_ns() + 500ULL * 1000000ULL;
+	while (vf_now_ns() < qend) {
+		pump(v);
+		if (vf_quiesce(2, 20)) break;
+	}
+	double   c0 = cpu_seconds();
+	uint64_t t0 = vf_now_ns();
+	vf_msleep(ms);
+	double c1   = cpu_seconds();
+	double wall = (double) (vf_now_ns() - t0) / 1e9;
+	vf_stat("spin_probes", 1);
+	vf_stat(g_trunc ? "spin_probes_trunc" : "spin_probes_mut", 1);
+	if (c1 - c0 > 0.25 * wall) {
+		vf_stat("spin_probes_suspicious", 1);
+		spin_window(v, when);
 	}
 	pump(v);
 }
@@ -1181,7 +1420,7 @@ spin_window(victim *v, const char *when)
 static void
 diag(victim *v, const char *what)
 {
-	fprintf(stderr, "  DIAG %s: %s/%s mut=%s session age %.2f s, max scheduling delay %.0f ms, udp inactivity expiries +%ld, DISC received by reason:", what, tnames[v->tran], v->vp->name, v->cur_mut,
+	fprintf(stderr, "  DIAG %s: %s/%s mut=%s session age %.2f s, max scheduling delay %.0f ms, udp inactivity expiries +%ld, DISC received by reason:", what, vtn(v), v->vp->name, v->cur_mut,
 	    (double) (vf_now_ns() - v->sess_t0) / 1e9, (double) atomic_load(&tick_max_over_ns) / 1e6, atomic_load(&log_udp_inactive) - v->inact0);
 	for (int i = 0; i < 16; i++) {
 		long d = atomic_load(&log_udp_disc[i]) - v->disc0[i];
@@ -1204,6 +1443,14 @@ ctl_mark_established(ctlsock *c)
 // The process was not being run for a long stretch during this session (the
 // 1 ms ticker overslept by more than 0.7 s): a missed wall-clock deadline then
 // says nothing about the library.
+static long g_starved, g_sessions;
+static void
+note_starved(void)
+{
+	g_starved++;
+	vf_stat("starved_observations_discarded", 1);
+}
+
 static bool
 starved(void)
 {
@@ -1222,7 +1469,7 @@ udp_loss_reason(victim *v, ctlsock *c, char *why, size_t sz)
 	long bad = 0;
 	static const int badr[] = { 1, 3, 4, 5, 7, 8 }; // TYPE, REFUSED, MSGSIZE, NEGO, PROTO, NOBUF
 	for (int i = 0; i < 6; i++) bad += atomic_load(&log_udp_disc[badr[i]]) - c->disc_base[badr[i]];
-	bool ka = udp_inactive_seen(atomic_load(&c->lport), c->t_conn) || udp_inactive_seen(v->port, c->t_conn) ||
+	bool ka = udp_inactive_seen(atomic_load(&c->lport), c->t_conn) || udp_inactive_seen(v->dial ? atomic_load(&c->pport) : v->port, c->t_conn) ||
 	    atomic_load(&log_udp_disc[6]) - c->disc_base[6] > 0;
 	snprintf(why, sz, "inactivity expiry of this connection %s, DISC with a protocol reason received by a client: %ld", ka ? "logged" : "not logged", bad);
 	if (bad > 0) return 2;
@@ -1248,9 +1495,9 @@ check_bystanders(victim *v, bool do_new, bool attacker_present)
 				vf_stat("udp_bystander_lost_to_keepalive_expiry", 1);
 				vf_class("inconclusive/udp-keepalive-expiry/%s", vp->name);
 			} else if (udp && starved()) {
-				vf_stat("starved_observations_discarded", 1);
+				note_starved();
 			} else {
-				snprintf(key, sizeof(key), "C11/bystander-dropped/%s/%s", tnames[v->tran], vp->name);
+				snprintf(key, sizeof(key), "C11/bystander-dropped/%s/%s", vtn(v), vp->name);
 				vf_violation(key, "the well-behaved control connection was disconnected (mutation %s)%s%s", v->cur_mut, udp ? "; " : "", udp ? why : "");
 				diag(v, "bystander-dropped");
 			}
@@ -1263,7 +1510,7 @@ check_bystanders(victim *v, bool do_new, bool attacker_present)
 				// the connection (udp may lose it) or the listener?
 				int r = udp_loss_reason(v, c, why, sizeof(why));
 				if (r == 2) {
-					snprintf(key, sizeof(key), "C11/bystander-dropped/%s/%s", tnames[v->tran], vp->name);
+					snprintf(key, sizeof(key), "C11/bystander-dropped/%s/%s", vtn(v), vp->name);
 					vf_violation(key, "the well-behaved control connection was refused by the victim (mutation %s); %s", v->cur_mut, why);
 					diag(v, "bystander-refused");
 					judged = true;
@@ -1276,7 +1523,7 @@ check_bystanders(victim *v, bool do_new, bool attacker_present)
 						ctl_mark_established(&v->ctl[o]);
 						judged = true;
 					} else if (starved()) {
-						vf_stat("starved_observations_discarded", 1);
+						note_starved();
 						ctl_close(v, o);
 						judged = true;
 					}
@@ -1285,17 +1532,17 @@ check_bystanders(victim *v, bool do_new, bool attacker_present)
 					judged = true;
 				}
 				if (!judged) {
-					snprintf(key, sizeof(key), "C11/control-old/%s/%s", tnames[v->tran], vp->name);
+					snprintf(key, sizeof(key), "C11/control-old/%s/%s", vtn(v), vp->name);
 					vf_violation(key, "neither the control client connected before the session nor a fresh one can complete an exchange (12+ attempts, 6+ s each) after mutation %s; %s", v->cur_mut, why);
 					diag(v, "control-old");
 					ctl_close(v, o);
 					v->wedged = true;
 				}
 			} else if (starved()) {
-				vf_stat("starved_observations_discarded", 1);
+				note_starved();
 				ctl_close(v, o);
 			} else {
-				snprintf(key, sizeof(key), "C11/control-old/%s/%s", tnames[v->tran], vp->name);
+				snprintf(key, sizeof(key), "C11/control-old/%s/%s", vtn(v), vp->name);
 				vf_violation(key, "control client connected before the session cannot complete an exchange (12+ attempts in 6+ s) after mutation %s", v->cur_mut);
 				diag(v, "control-old");
 				ctl_close(v, o);
@@ -1318,10 +1565,10 @@ check_bystanders(victim *v, bool do_new, bool attacker_present)
 	if (!cok) {
 		ctl_close(v, k);
 		if (starved()) {
-			vf_stat("starved_observations_discarded", 1);
+			note_starved();
 			return;
 		}
-		snprintf(key, sizeof(key), "C11/control-new/connect/%s/%s", tnames[v->tran], vp->name);
+		snprintf(key, sizeof(key), "C11/control-new/connect/%s/%s", vtn(v), vp->name);
 		vf_violation(key, "a new well-behaved client cannot connect within 8 s after mutation %s (pipes started %d, removed %d, own clients %d)", v->cur_mut, atomic_load(&v->pre), atomic_load(&v->rem), live_ctl(v));
 		diag(v, "control-new/connect");
 		v->wedged = true;
@@ -1340,10 +1587,10 @@ check_bystanders(victim *v, bool do_new, bool attacker_present)
 	if (!xok) {
 		ctl_close(v, k);
 		if (starved()) {
-			vf_stat("starved_observations_discarded", 1);
+			note_starved();
 			return;
 		}
-		snprintf(key, sizeof(key), "C11/control-new/exchange/%s/%s", tnames[v->tran], vp->name);
+		snprintf(key, sizeof(key), "C11/control-new/exchange/%s/%s", vtn(v), vp->name);
 		vf_violation(key, "a new well-behaved client connected but cannot complete an exchange (12+ attempts in 6+ s) after mutation %s", v->cur_mut);
 		diag(v, "control-new/exchange");
 		return;
@@ -1394,6 +1641,7 @@ typedef struct {
 	int     x_dgram; // udp truncation: 0 = the CREQ, j+1 = data datagram j
 	size_t  x_dglen;
 	bool    big;
+	int     halfopen; // stream: that many more connections that never finish their handshake
 } plan;
 
 static void
@@ -1535,7 +1783,7 @@ enum {
 	M_HDR_80000000, M_HDR_7FFFFFFF, M_HDR_HOP0, M_HDR_HOPTTL, M_HDR_HOPTTLP1, M_HDR_HOP255,
 	M_HDR_HOP256, M_HDR_HOPBIG, M_HDR_ID_WRONG, M_HDR_ID_LOW, M_HDR_ID_DUP,
 	M_IPC_TYPE0, M_IPC_TYPE2, M_IPC_TYPEFF,
-	M_GARBAGE, M_FLOOD_EMPTY, M_FLOOD_SMALL, M_BIG_VALID, M_TRUNC_RANDOM,
+	M_GARBAGE, M_FLOOD_EMPTY, M_FLOOD_SMALL, M_BIG_VALID, M_TRUNC_RANDOM, M_HALFOPEN,
 	M_STREAM_N
 };
 static const char *mutnames[M_STREAM_N] = {
@@ -1548,7 +1796,7 @@ static const char *mutnames[M_STREAM_N] = {
 	"hdr-80000000", "hdr-7fffffff", "hdr-hop0", "hdr-hop-ttl", "hdr-hop-ttl+1", "hdr-hop255",
 	"hdr-hop256", "hdr-hop-big", "hdr-id-wrong", "hdr-id-lowbit", "hdr-id-dup",
 	"ipc-type0", "ipc-type2", "ipc-typeff",
-	"garbage", "flood-empty", "flood-small", "big-valid", "trunc-random",
+	"garbage", "flood-empty", "flood-small", "big-valid", "trunc-random", "halfopen-crowd",
 };
 
 // largest header the natural frames of this victim carry
@@ -1714,6 +1962,12 @@ plan_mutate(const victim *v, plan *pl, vf_rng *r, int m)
 		for (int i = 3; i < pl->nfr; i++) pl->fr[i] = pl->fr[i % 3];
 		break;
 	case M_TRUNC_RANDOM: pl->cut = -2; break; // resolved after rendering
+	case M_HALFOPEN:
+		// other connections that stop inside their handshake while this
+		// (valid) one negotiates and talks; some go away meanwhile
+		if (v->dial || v->tran > T_IPC) return false;
+		pl->halfopen = 2 + (int) vf_below(r, 5);
+		break;
 	default: return false;
 	}
 	// frames that must fit the limit when they are meant to be valid
@@ -1806,10 +2060,69 @@ fd_close_rst(int fd)
 	close(fd);
 }
 
+// Dialing victim: take the connection its dialer has made to the raw listener.
+// The dialer has at most one connection outstanding; one that has been waiting
+// in the listen queue for a while may be past the victim's negotiation timeout
+// (10 s; websocket 2 s) or carry a limit that has been changed since, so it is
+// given up (a peer that accepts and closes without a byte) and the next one is
+// taken.  Returns -1 if the dialer does not come back within 8 s.
+static int
+attacker_accept(victim *v)
+{
+	pclock pc;
+	int    fd = -1;
+	bool   fresh = v->idle_since != 0 && vf_now_ns() - v->idle_since < 700000000ULL;
+	pc_start(&pc);
+	for (;;) {
+		int nfd = accept4(v->lfd, NULL, NULL, SOCK_CLOEXEC);
+		if (nfd >= 0) {
+			if (fd >= 0) {
+				close(fd);
+				vf_stat("dial_stale_connections_dropped", 1);
+			}
+			fd = nfd;
+			continue;
+		}
+		if (errno == EINTR) continue;
+		if (fd >= 0 && !fresh) {
+			close(fd);
+			fd    = -1;
+			fresh = true;
+			vf_stat("dial_stale_connections_dropped", 1);
+			continue;
+		}
+		if (fd >= 0) break;
+		if (pc_ms(&pc) > 8000) return -1;
+		pump(v);
+		struct pollfd p = { v->lfd, POLLIN, 0 };
+		poll(&p, 1, 2);
+	}
+	vf_stat("dial_accepts", 1);
+	v->idle_since = vf_now_ns(); // the victim may close (and dial again) any time from now on
+	fd_nonblock(fd);
+	return fd;
+}
+
+// the dialer did not come back after the last session
+static void
+no_redial(victim *v)
+{
+	char key[160];
+	if (starved()) {
+		note_starved();
+		return;
+	}
+	snprintf(key, sizeof(key), "C11/dialer-stopped/%s/%s", vtn(v), v->vp->name);
+	vf_violation(key, "the victim's dialer has not tried to connect again for 8 s after the session with mutation %s: a hostile server stops the dialer for good, not just the offending connection", v->last_mut);
+	diag(v, "dialer-stopped");
+	v->wedged = true;
+}
+
 static int
 attacker_connect_stream(victim *v)
 {
 	int fd = -1;
+	if (v->dial) return attacker_accept(v);
 	switch (v->tran) {
 	case T_SOCKFD: fd = sockfd_pair_to_victim(v); break;
 	case T_TCP:
@@ -1852,6 +2165,20 @@ learn_id_stream(victim *v, int fd, int post0)
 	return 0;
 }
 
+// (3) held: per transport, direction and origin of the limit
+static void
+oversize_closed_stat(victim *v)
+{
+	char k[64];
+	vf_stat("oversize_closed", 1);
+	snprintf(k, sizeof(k), "oversize_closed_%s", tnames[v->tran]);
+	vf_stat(k, 1);
+	if (v->dial) vf_stat("oversize_closed_dial", 1);
+	snprintf(k, sizeof(k), "oversize_closed_limit_%s", v->limsrc);
+	vf_stat(k, 1);
+	vf_class("oversize-closed/%s/rm=%zu/%s", vtn(v), v->recvmax, v->limsrc);
+}
+
 #define PHASE(name) do { uint64_t n_ = vf_now_ns(); vf_stat("us_" name, (long) ((n_ - tph) / 1000)); tph = n_; } while (0)
 
 static void
@@ -1859,13 +2186,19 @@ session_report(victim *v, sess_exp *se, const plan *pl, int vclosed, size_t writ
 {
 	const char *out = se->ndeliverable == 0 ? "nothing-deliverable" : se->ndelivered == 0 ? "none-delivered" : se->ndelivered == se->ndeliverable ? "all-delivered" : "some-delivered";
 	vf_stat("sessions", 1);
+	g_sessions++;
 	char k[64];
 	snprintf(k, sizeof(k), "sessions_%s", tnames[v->tran]);
 	vf_stat(k, 1);
+	if (v->dial) {
+		snprintf(k, sizeof(k), "sessions_dial_%s", tnames[v->tran]);
+		vf_stat(k, 1);
+	}
+	snprintf(v->last_mut, sizeof(v->last_mut), "%s", pl->mut);
 	vf_stat("frames_deliverable", se->ndeliverable);
 	vf_stat("frames_decoded", se->nfr);
 	if (pl->cut >= 0) vf_stat("truncated_sessions", 1);
-	vf_class("%s/%s/%s/%s/%s%s", tnames[v->tran], v->vp->name, pl->mut, endnames[pl->endact], out, vclosed == 1 ? "/victim-closed" : vclosed == 0 ? "/victim-kept-open" : "");
+	vf_class("%s/%s/%s/%s/%s%s", vtn(v), v->vp->name, pl->mut, endnames[pl->endact], out, vclosed == 1 ? "/victim-closed" : vclosed == 0 ? "/victim-kept-open" : "");
 	(void) written;
 	(void) total;
 }
@@ -1888,16 +2221,17 @@ session_tail(victim *v, sess_exp *se, plan *pl, int fd, bool hs_ok, int pre0, bo
 		vf_stat("oversize_probes", 1);
 		vclosed = fd_wait_eof_pump(v, fd, 5000);
 		if (vclosed) {
-			vf_stat("oversize_closed", 1);
+			oversize_closed_stat(v);
 		} else if (starved()) {
-			vf_stat("starved_observations_discarded", 1);
+			note_starved();
 		} else {
-			snprintf(key, sizeof(key), "C11/oversize-not-closed/%s/%s", tnames[v->tran], vp->name);
+			snprintf(key, sizeof(key), "C11/oversize-not-closed/%s/%s", vtn(v), vp->name);
 			vf_violation(key, "recvmax=%zu: the connection is still open 5 s after a frame length beyond the limit (mutation %s, %zu bytes written)", v->recvmax, pl->mut, written);
 		}
 	} else if (se->closeexp == CE_SOFT) {
 		vclosed = fd_wait_eof_pump(v, fd, 1500);
 		vf_stat(vclosed ? "malformed_closed" : "malformed_not_closed_1500ms", 1);
+		if (!vclosed) vf_class("malformed-not-closed/%s/%s/%s", vtn(v), vp->name, pl->mut);
 	}
 
 	if (se->closeexp == CE_NONE && v->vp->can_recv) {
@@ -1949,7 +2283,7 @@ session_tail(victim *v, sess_exp *se, plan *pl, int fd, bool hs_ok, int pre0, bo
 		for (size_t i = 0; i < hn; i++) snprintf(hex + 2 * i, 3, "%02x", bytes.p[i]);
 		hex[2 * hn] = 0;
 		vf_sample("{\"tran\":\"%s\",\"proto\":\"%s\",\"recvmax\":%zu,\"ttl\":%d,\"mutation\":\"%s\",\"end\":\"%s\",\"bytes_written\":%zu,\"first_bytes\":\"%s\",\"frames_decoded\":%d,\"deliverable\":%d,\"delivered\":%d,\"victim_closed\":%d}",
-		    tnames[v->tran], vp->name, v->recvmax, v->ttl, pl->mut, endnames[pl->endact], written, hex, se->nfr, se->ndeliverable, se->ndelivered, vclosed);
+		    vtn(v), vp->name, v->recvmax, v->ttl, pl->mut, endnames[pl->endact], written, hex, se->nfr, se->ndeliverable, se->ndelivered, vclosed);
 	}
 }
 
@@ -1963,11 +2297,26 @@ run_stream_session(victim *v, plan *pl, vf_rng *r, bool do_new, bool do_spin)
 	bool          slot_busy = vp->single && live_ctl(v) > 0;
 	bbuf          bytes = { 0 };
 	uint8_t       vhs[8];
-	char          key[160];
 	v->cur_mut = pl->mut;
 
 	uint64_t tph = vf_now_ns();
 	int fd = attacker_connect_stream(v);
+	if (fd < 0) {
+		no_redial(v);
+		return;
+	}
+
+	// the crowd: connections that send a part of a valid handshake and wait
+	int xfd[8], nx = 0;
+	for (int i = 0; i < pl->halfopen && i < 8 && !v->dial; i++) {
+		uint8_t hello[8];
+		size_t  k = vf_below(r, 8);
+		vf_sp_hello(hello, vp->peer);
+		xfd[nx] = attacker_connect_stream(v);
+		if (k > 0) (void) fd_write_pump(v, xfd[nx], hello, k, 0, r);
+		nx++;
+		vf_stat("halfopen_connections", 1);
+	}
 
 	// the first bytes: our handshake (possibly cut short)
 	size_t hs_send = pl->hslen;
@@ -1997,8 +2346,17 @@ run_stream_session(victim *v, plan *pl, vf_rng *r, bool do_new, bool do_spin)
 	// what the victim may deliver is decided before anything can arrive
 	decode_stream(v, se, bytes.p, total < w0 ? w0 : total, id, !slot_busy);
 	size_t written = w0;
+	// half of the crowd leaves while the data of this connection is on its way
+	for (int i = 0; i < nx / 2; i++) {
+		if (vf_chance(r, 1, 2)) fd_close_rst(xfd[i]);
+		else close(xfd[i]);
+	}
 	if (total > w0 && w0 == hs_send) {
 		written += fd_write_pump(v, fd, bytes.p + w0, total - w0, pl->chunk, r);
+	}
+	for (int i = nx / 2; i < nx; i++) {
+		if (vf_chance(r, 1, 2)) fd_close_rst(xfd[i]);
+		else close(xfd[i]);
 	}
 	vf_stat("bytes_written", (long) written);
 	if (written < total) vf_stat("writes_cut_by_victim_close", 1);
@@ -2075,6 +2433,93 @@ render_http(const victim *v, int hx, vf_rng *r, bbuf *out)
 	if (hx == HX_BODY) bb_str(out, "hello");
 }
 
+// Dialing victim: the raw peer is the HTTP server.  One defect per response.
+enum {
+	RX_NONE = 0, RX_STATUS_200, RX_STATUS_404, RX_STATUS_400, RX_STATUS_500, RX_STATUS_TEXT, RX_HTTP10, RX_NO_ACCEPT, RX_BAD_ACCEPT, RX_DUP_ACCEPT,
+	RX_NO_UPGRADE, RX_NO_CONNECTION, RX_SUBPROTO_WRONG, RX_SUBPROTO_NONE, RX_LONGLINE, RX_NOCOLON, RX_LF, RX_GARBAGE, RX_MANYHDR,
+	RX_BODY, RX_CHUNKED, RX_NO_REASON, RX_N
+};
+static const char *rxnames[RX_N] = {
+	"", "http-resp-200", "http-resp-404", "http-resp-400", "http-resp-500", "http-resp-status-text", "http-resp-1.0", "http-resp-no-accept", "http-resp-bad-accept", "http-resp-dup-accept",
+	"http-resp-no-upgrade", "http-resp-no-connection", "http-resp-subproto-wrong", "http-resp-subproto-none", "http-resp-long-line", "http-resp-no-colon", "http-resp-lf-only", "http-resp-garbage", "http-resp-many-headers",
+	"http-resp-body", "http-resp-chunked", "http-resp-no-reason",
+};
+
+static void
+render_http_response(int rx, const char *key, const char *subproto, vf_rng *r, bbuf *out)
+{
+	char         line[256], accept[32];
+	uint8_t      digest[20];
+	nni_sha1_ctx ctx;
+	const char  *nl = rx == RX_LF ? "\n" : "\r\n";
+	if (rx == RX_GARBAGE) {
+		size_t n = 20 + vf_below(r, 200);
+		for (size_t i = 0; i < n; i++) bb_u8(out, (uint8_t) vf_rand(r));
+		bb_str(out, "\r\n\r\n");
+		return;
+	}
+	nni_sha1_init(&ctx);
+	nni_sha1_update(&ctx, key, strlen(key));
+	nni_sha1_update(&ctx, "258EAFA5-E914-47DA-95CA-C5AB0DC85B11", 36);
+	nni_sha1_final(&ctx, digest);
+	nni_base64_encode(digest, 20, accept, 28);
+	accept[28] = 0;
+	if (rx == RX_BAD_ACCEPT) accept[5] = accept[5] == 'A' ? 'B' : 'A';
+	const char *status = rx == RX_STATUS_200 ? "200 OK" : rx == RX_STATUS_404 ? "404 Not Found" : rx == RX_STATUS_400 ? "400 Bad Request" : rx == RX_STATUS_500 ? "500 Internal Server Error" :
+	    rx == RX_STATUS_TEXT ? "abc Switching Protocols" : rx == RX_NO_REASON ? "101" : "101 Switching Protocols";
+	snprintf(line, sizeof(line), "HTTP/%s %s%s", rx == RX_HTTP10 ? "1.0" : "1.1", status, nl);
+	bb_str(out, line);
+	if (rx == RX_LONGLINE) {
+		bb_str(out, "X-Long: ");
+		for (int i = 0; i < 9000; i++) bb_u8(out, (uint8_t) ('a' + i % 26));
+		bb_str(out, nl);
+	}
+	if (rx == RX_NOCOLON) { bb_str(out, "this header has no colon"); bb_str(out, nl); }
+	if (rx == RX_MANYHDR) {
+		for (int i = 0; i < 300; i++) {
+			snprintf(line, sizeof(line), "X-H%d: v%d%s", i, i, nl);
+			bb_str(out, line);
+		}
+	}
+	if (rx != RX_NO_UPGRADE) { bb_str(out, "Upgrade: websocket"); bb_str(out, nl); }
+	if (rx != RX_NO_CONNECTION) { bb_str(out, "Connection: Upgrade"); bb_str(out, nl); }
+	if (rx != RX_NO_ACCEPT) {
+		snprintf(line, sizeof(line), "Sec-WebSocket-Accept: %s%s", accept, nl);
+		bb_str(out, line);
+		if (rx == RX_DUP_ACCEPT) { bb_str(out, "Sec-WebSocket-Accept: AAAAAAAAAAAAAAAAAAAAAAAAAAA="); bb_str(out, nl); }
+	}
+	if (rx != RX_SUBPROTO_NONE) {
+		snprintf(line, sizeof(line), "Sec-WebSocket-Protocol: %s%s", rx == RX_SUBPROTO_WRONG ? "bogus.sp.nanomsg.org" : subproto, nl);
+		bb_str(out, line);
+	}
+	if (rx == RX_BODY) { bb_str(out, "Content-Length: 5"); bb_str(out, nl); }
+	if (rx == RX_CHUNKED) { bb_str(out, "Transfer-Encoding: chunked"); bb_str(out, nl); }
+	bb_str(out, nl);
+	if (rx == RX_BODY) bb_str(out, "hello");
+	if (rx == RX_CHUNKED) bb_str(out, "5\r\nhello\r\n0\r\n\r\n");
+}
+
+// value of a request header (case-insensitive name), copied without the line end
+static bool
+http_header_value(const char *req, const char *name, char *out, size_t sz)
+{
+	size_t      nl = strlen(name);
+	const char *p  = req;
+	while ((p = strchr(p, '\n')) != NULL) {
+		p++;
+		if (strncasecmp(p, name, nl) == 0 && p[nl] == ':') {
+			const char *q = p + nl + 1;
+			while (*q == ' ' || *q == '\t') q++;
+			size_t n = 0;
+			while (q[n] && q[n] != '\r' && q[n] != '\n' && n + 1 < sz) n++;
+			memcpy(out, q, n);
+			out[n] = 0;
+			return true;
+		}
+	}
+	return false;
+}
+
 // lenmode: 0 minimal, 1 force 16 bit, 2 force 64 bit
 static void
 ws_put_frame(bbuf *out, bool fin, uint8_t rsv, uint8_t op, bool masked, int lenmode, const uint8_t *pay, size_t plen, uint64_t declared, bool nodata, vf_rng *r)
@@ -2114,47 +2559,48 @@ static void
 render_ws_frames(const victim *v, const plan *pl, uint32_t serial, uint32_t id, vf_rng *r, bbuf *out)
 {
 	static const uint8_t ping[126] = { 'p' };
+	const bool           mk = !v->dial; // a client masks its frames, a server must not
 	for (int j = 0; j < pl->nfr; j++) {
 		const fspec *f   = &pl->fr[j];
 		bbuf         pay = { 0 };
 		render_payload(v, f, serial, j, id, r, &pay);
 		uint64_t decl = frame_len_field(f, pay.n);
 		switch (f->x_kind) {
-		case WX_UNMASKED: ws_put_frame(out, true, 0, 2, false, 0, pay.p, pay.n, decl, f->nodata, r); break;
-		case WX_RSV: ws_put_frame(out, true, (uint8_t) (0x10 << vf_below(r, 3)), 2, true, 0, pay.p, pay.n, decl, f->nodata, r); break;
-		case WX_OPCODE_BAD: ws_put_frame(out, true, 0, (uint8_t) (vf_chance(r, 1, 2) ? 3 + vf_below(r, 5) : 11 + vf_below(r, 5)), true, 0, pay.p, pay.n, decl, f->nodata, r); break;
-		case WX_TEXT: ws_put_frame(out, true, 0, 1, true, 0, pay.p, pay.n, decl, f->nodata, r); break;
+		case WX_UNMASKED: ws_put_frame(out, true, 0, 2, !mk, 0, pay.p, pay.n, decl, f->nodata, r); break;
+		case WX_RSV: ws_put_frame(out, true, (uint8_t) (0x10 << vf_below(r, 3)), 2, mk, 0, pay.p, pay.n, decl, f->nodata, r); break;
+		case WX_OPCODE_BAD: ws_put_frame(out, true, 0, (uint8_t) (vf_chance(r, 1, 2) ? 3 + vf_below(r, 5) : 11 + vf_below(r, 5)), mk, 0, pay.p, pay.n, decl, f->nodata, r); break;
+		case WX_TEXT: ws_put_frame(out, true, 0, 1, mk, 0, pay.p, pay.n, decl, f->nodata, r); break;
 		case WX_PING_BEFORE:
-			ws_put_frame(out, true, 0, 9, true, 0, ping, 5, 5, false, r);
-			ws_put_frame(out, true, 0, 2, true, 0, pay.p, pay.n, decl, f->nodata, r);
+			ws_put_frame(out, true, 0, 9, mk, 0, ping, 5, 5, false, r);
+			ws_put_frame(out, true, 0, 2, mk, 0, pay.p, pay.n, decl, f->nodata, r);
 			break;
 		case WX_PONG_UNSOL:
-			ws_put_frame(out, true, 0, 10, true, 0, ping, 9, 9, false, r);
-			ws_put_frame(out, true, 0, 2, true, 0, pay.p, pay.n, decl, f->nodata, r);
+			ws_put_frame(out, true, 0, 10, mk, 0, ping, 9, 9, false, r);
+			ws_put_frame(out, true, 0, 2, mk, 0, pay.p, pay.n, decl, f->nodata, r);
 			break;
 		case WX_PING_BIG:
-			ws_put_frame(out, true, 0, 9, true, 0, ping, 126, 126, false, r);
-			ws_put_frame(out, true, 0, 2, true, 0, pay.p, pay.n, decl, f->nodata, r);
+			ws_put_frame(out, true, 0, 9, mk, 0, ping, 126, 126, false, r);
+			ws_put_frame(out, true, 0, 2, mk, 0, pay.p, pay.n, decl, f->nodata, r);
 			break;
 		case WX_PING_FRAG:
-			ws_put_frame(out, false, 0, 9, true, 0, ping, 5, 5, false, r);
-			ws_put_frame(out, true, 0, 2, true, 0, pay.p, pay.n, decl, f->nodata, r);
+			ws_put_frame(out, false, 0, 9, mk, 0, ping, 5, 5, false, r);
+			ws_put_frame(out, true, 0, 2, mk, 0, pay.p, pay.n, decl, f->nodata, r);
 			break;
-		case WX_CONT_NOSTART: ws_put_frame(out, true, 0, 0, true, 0, pay.p, pay.n, decl, f->nodata, r); break;
+		case WX_CONT_NOSTART: ws_put_frame(out, true, 0, 0, mk, 0, pay.p, pay.n, decl, f->nodata, r); break;
 		case WX_BIN_IN_MSG:
-			ws_put_frame(out, false, 0, 2, true, 0, pay.p, pay.n / 2, pay.n / 2, false, r);
-			ws_put_frame(out, true, 0, 2, true, 0, pay.p + pay.n / 2, pay.n - pay.n / 2, pay.n - pay.n / 2, false, r);
+			ws_put_frame(out, false, 0, 2, mk, 0, pay.p, pay.n / 2, pay.n / 2, false, r);
+			ws_put_frame(out, true, 0, 2, mk, 0, pay.p + pay.n / 2, pay.n - pay.n / 2, pay.n - pay.n / 2, false, r);
 			break;
 		case WX_CLOSE_BEFORE: {
 			uint8_t code[2] = { 0x03, 0xe8 };
-			ws_put_frame(out, true, 0, 8, true, 0, code, 2, 2, false, r);
-			ws_put_frame(out, true, 0, 2, true, 0, pay.p, pay.n, decl, f->nodata, r);
+			ws_put_frame(out, true, 0, 8, mk, 0, code, 2, 2, false, r);
+			ws_put_frame(out, true, 0, 2, mk, 0, pay.p, pay.n, decl, f->nodata, r);
 			break;
 		}
-		case WX_NONMIN16: ws_put_frame(out, true, 0, 2, true, 1, pay.p, pay.n, decl, f->nodata, r); break;
-		case WX_NONMIN64: ws_put_frame(out, true, 0, 2, true, 2, pay.p, pay.n, decl, f->nodata, r); break;
-		case WX_LEN63: ws_put_frame(out, true, 0, 2, true, 2, pay.p, pay.n, UINT64_C(1) << 63 | f->x_arg, true, r); break;
-		case WX_LEN_OVER_NODATA: ws_put_frame(out, true, 0, 2, true, 0, pay.p, pay.n, (uint64_t) f->x_arg, true, r); break;
+		case WX_NONMIN16: ws_put_frame(out, true, 0, 2, mk, 1, pay.p, pay.n, decl, f->nodata, r); break;
+		case WX_NONMIN64: ws_put_frame(out, true, 0, 2, mk, 2, pay.p, pay.n, decl, f->nodata, r); break;
+		case WX_LEN63: ws_put_frame(out, true, 0, 2, mk, 2, pay.p, pay.n, UINT64_C(1) << 63 | f->x_arg, true, r); break;
+		case WX_LEN_OVER_NODATA: ws_put_frame(out, true, 0, 2, mk, 0, pay.p, pay.n, (uint64_t) f->x_arg, true, r); break;
 		case WX_FRAG2:
 		case WX_FRAG3:
 		case WX_FRAG_EMPTY: {
@@ -2162,7 +2608,7 @@ render_ws_frames(const victim *v, const plan *pl, uint32_t serial, uint32_t id, 
 			size_t at    = 0;
 			for (int k = 0; k < parts; k++) {
 				size_t n = k == parts - 1 ? pay.n - at : (f->x_kind == WX_FRAG_EMPTY ? 0 : vf_below(r, (uint32_t) (pay.n - at) + 1));
-				ws_put_frame(out, k == parts - 1, 0, k == 0 ? 2 : 0, true, 0, pay.p + at, n, n, false, r);
+				ws_put_frame(out, k == parts - 1, 0, k == 0 ? 2 : 0, mk, 0, pay.p + at, n, n, false, r);
 				at += n;
 			}
 			break;
@@ -2177,14 +2623,14 @@ render_ws_frames(const victim *v, const plan *pl, uint32_t serial, uint32_t id, 
 			if (n > pay.n) n = pay.n;
 			while (at < pay.n) {
 				if (n > pay.n - at) n = pay.n - at;
-				ws_put_frame(out, at + n == pay.n, 0, first ? 2 : 0, true, 0, pay.p + at, n, n, false, r);
+				ws_put_frame(out, at + n == pay.n, 0, first ? 2 : 0, mk, 0, pay.p + at, n, n, false, r);
 				at += n;
 				first = false;
 				if (vf_chance(r, 1, 2) && pay.n - at > 1) n = (pay.n - at + 1) / 2 + vf_below(r, (uint32_t) ((pay.n - at) / 2));
 			}
 			break;
 		}
-		default: ws_put_frame(out, true, 0, 2, true, 0, pay.p, pay.n, decl, f->nodata, r); break;
+		default: ws_put_frame(out, true, 0, 2, mk, 0, pay.p, pay.n, decl, f->nodata, r); break;
 		}
 		free(pay.p);
 	}
@@ -2269,11 +2715,14 @@ learn_id_ws(victim *v, int fd, int post0)
 			ctl_service(v, 1);
 			if (v->vp->id_once && (v->ctl[0].seen_seq >= seq || v->ctl[1].seen_seq >= seq)) break;
 			if (poll(&p, 1, 2) > 0) {
-				uint8_t h[2], pay[125];
+				uint8_t h[2], pay[125], mk[4] = { 0, 0, 0, 0 };
 				if (vf_fd_read_full(fd, h, 2, 1000) != 2) return 0;
 				size_t len = h[1] & 0x7f;
-				if ((h[0] & 0x0f) != 2 || (h[1] & 0x80) || len < 4 || len > 125) return 0;
+				// (a dialing victim is the websocket client: its frames are masked)
+				if ((h[0] & 0x0f) != 2 || ((h[1] & 0x80) != 0) != v->dial || len < 4 || len > 125) return 0;
+				if (v->dial && vf_fd_read_full(fd, mk, 4, 1000) != 4) return 0;
 				if (vf_fd_read_full(fd, pay, len, 1000) != (long) len) return 0;
+				for (size_t i = 0; i < len; i++) pay[i] ^= mk[i & 3];
 				vf_stat("ids_learnt", 1);
 				return be32(pay);
 			}
@@ -2295,16 +2744,57 @@ run_ws_session(victim *v, plan *pl, vf_rng *r, bool do_new, bool do_spin)
 	v->cur_mut = pl->mut;
 
 	int fd = attacker_connect_stream(v);
-	render_http(v, pl->x_http, r, &bytes);
+	if (fd < 0) {
+		no_redial(v);
+		return;
+	}
+	char   resp[2048];
+	size_t rn = 0;
+	bool   upgraded = false;
+	if (v->dial) {
+		// the victim's request first: up to the blank line
+		char   key[64] = "", sub[96] = "";
+		pclock hpc;
+		pc_start(&hpc);
+		while (rn < sizeof(resp) - 1 && pc_ms(&hpc) < 5000) {
+			struct pollfd p = { fd, POLLIN, 0 };
+			if (poll(&p, 1, 5) <= 0) { pump(v); continue; }
+			ssize_t k = read(fd, resp + rn, 1);
+			if (k <= 0) {
+				if (k < 0 && (errno == EAGAIN || errno == EINTR)) continue;
+				break;
+			}
+			rn += (size_t) k;
+			resp[rn] = 0;
+			if (rn >= 4 && !memcmp(resp + rn - 4, "\r\n\r\n", 4)) break;
+		}
+		bool req_ok = rn >= 4 && !memcmp(resp + rn - 4, "\r\n\r\n", 4) && !strncmp(resp, "GET ", 4) &&
+		    http_header_value(resp, "Sec-WebSocket-Key", key, sizeof(key)) && http_header_value(resp, "Sec-WebSocket-Protocol", sub, sizeof(sub));
+		vf_stat(req_ok ? "ws_dial_requests_seen" : "ws_dial_requests_missing", 1);
+		render_http_response(pl->x_http, key, sub, r, &bytes);
+	} else {
+		render_http(v, pl->x_http, r, &bytes);
+	}
 	size_t httplen = bytes.n;
 	size_t hsend   = httplen;
 	if (pl->cut >= 0 && (size_t) pl->cut < hsend) hsend = (size_t) pl->cut;
 	size_t w0 = fd_write_pump(v, fd, bytes.p, hsend, pl->chunk == 2 ? 1 : pl->chunk, r);
-	// response: up to the blank line, EOF, or timeout
-	char   resp[2048];
-	size_t rn = 0;
-	bool   upgraded = false;
-	if (w0 == httplen) {
+	if (v->dial) {
+		// Whether the client accepts a response with a defect is C16's business:
+		// the decoder allows delivery whenever the whole response went out, and
+		// the victim's socket says whether there is a pipe.
+		upgraded = w0 == httplen;
+		if (upgraded && pl->x_http == RX_NONE) {
+			bool got = wait_atomic_ge(&v->pre, pre0 + 1, 3000, v);
+			vf_stat(got ? "ws_upgraded" : "ws_dial_valid_response_no_pipe_3s", 1);
+			if (got) vf_stat("ws_dial_upgraded", 1);
+		} else if (upgraded) {
+			bool got = wait_atomic_ge(&v->pre, pre0 + 1, 40, v);
+			vf_stat(got ? "ws_dial_defective_response_accepted" : "ws_refused", 1);
+			if (got) vf_class("dial-ws/response-accepted/%s", pl->mut);
+		}
+	} else if (w0 == httplen) {
+		// response: up to the blank line, EOF, or timeout
 		pclock hpc;
 		pc_start(&hpc);
 		while (rn < sizeof(resp) - 1 && pc_ms(&hpc) < 8000) {
@@ -2324,8 +2814,10 @@ run_ws_session(victim *v, plan *pl, vf_rng *r, bool do_new, bool do_spin)
 	}
 	PHASE("handshake");
 	uint32_t id = 0;
-	if (upgraded) (void) wait_atomic_ge(&v->pre, pre0 + 1, 2000, v);
-	if (vp->hm == HM_ID4 && upgraded && !slot_busy) id = learn_id_ws(v, fd, post0);
+	// (a response with a defect may or may not be accepted: no waiting for a pipe)
+	bool pipe_expected = upgraded && !(v->dial && pl->x_http != RX_NONE);
+	if (pipe_expected) (void) wait_atomic_ge(&v->pre, pre0 + 1, 2000, v);
+	if (vp->hm == HM_ID4 && pipe_expected && !slot_busy) id = learn_id_ws(v, fd, post0);
 	render_ws_frames(v, pl, se->serial, id, r, &bytes);
 	size_t total = bytes.n;
 	if (pl->cut == -2) pl->cut = (long) (httplen + vf_below(r, (uint32_t) (total - httplen) + 1));
@@ -2335,18 +2827,25 @@ run_ws_session(victim *v, plan *pl, vf_rng *r, bool do_new, bool do_spin)
 	size_t written = w0;
 	if (total > w0 && w0 == hsend) written += fd_write_pump(v, fd, bytes.p + w0, total - w0, pl->chunk, r);
 	vf_stat("bytes_written", (long) written);
-	session_tail(v, se, pl, fd, upgraded, pre0, do_new, do_spin, written, &bytes, &tph);
+	session_tail(v, se, pl, fd, pipe_expected, pre0, do_new, do_spin, written, &bytes, &tph);
 	free(bytes.p);
 }
 //@@UDP@@
 // ---------------------------------------------------------------- udp sessions
 enum {
 	UM_NONE = 0, UM_VER, UM_OPCODE, UM_NOCREQ, UM_CREQ_TYPE, UM_CREQ_REFRESH0, UM_CREQ_RETYPE, UM_LEN_OVER, UM_LEN_UNDER,
-	UM_LEN_RCVMAX, UM_SHORT, UM_DISC_MID, UM_CACK_UNSOL, UM_DATA_TYPE, UM_FLOOD, UM_NODISC, UM_TRUNC_DGRAM, UM_N
+	UM_LEN_RCVMAX, UM_SHORT, UM_DISC_MID, UM_CACK_UNSOL, UM_DATA_TYPE, UM_FLOOD, UM_NODISC, UM_NOHS_BADLEN, UM_TRUNC_DGRAM, UM_N
 };
 static const char *umnames[UM_N] = {
 	"", "udp-version", "udp-opcode", "udp-data-without-creq", "udp-creq-type", "udp-creq-refresh0", "udp-creq-retype", "udp-length-over", "udp-length-under",
-	"udp-length-beyond-recvmax", "udp-short-datagram", "udp-disc-mid", "udp-cack-unsolicited", "udp-data-type", "udp-flood", "udp-no-disc", "udp-truncated-datagram",
+	"udp-length-beyond-recvmax", "udp-short-datagram", "udp-disc-mid", "udp-cack-unsolicited", "udp-data-type", "udp-flood", "udp-no-disc", "udp-badlen-without-creq", "udp-truncated-datagram",
+};
+
+// the same knobs against a dialing victim, where the raw peer answers the
+// victim's CREQ with a CACK (the first datagram of the plan)
+static const char *dumnames[UM_N] = {
+	"", "udp-version", "udp-opcode", "udp-data-without-cack", "udp-cack-type", "udp-cack-refresh0", "udp-cack-retype", "udp-length-over", "udp-length-under",
+	"udp-length-beyond-recvmax", "udp-short-datagram", "udp-disc-mid", "udp-creq-to-dialer", "udp-data-type", "udp-flood", "udp-no-disc", "udp-badlen-before-cack", "udp-truncated-datagram",
 };
 
 typedef struct {
@@ -2383,8 +2882,11 @@ render_udp(const victim *v, const plan *pl, uint32_t serial, uint32_t id, vf_rng
 {
 	int     n = 0, um = pl->x_http;
 	uint8_t h[8];
-	if (um != UM_NOCREQ) {
-		udp_hdr(h, 1, 1, um == UM_CREQ_TYPE ? (uint16_t) (v->vp->peer ^ 0x101) : v->vp->peer, 65000, um == UM_CREQ_REFRESH0 ? 0 : 5);
+	// (dialing victim: the handshake datagram is a CACK, and the control
+	// datagrams thrown in later are the ones a server would send)
+	const uint8_t op_hs = v->dial ? 2 : 1, op_other = v->dial ? 1 : 2;
+	if (um != UM_NOCREQ && um != UM_NOHS_BADLEN) {
+		udp_hdr(h, 1, op_hs, um == UM_CREQ_TYPE ? (uint16_t) (v->vp->peer ^ 0x101) : v->vp->peer, 65000, um == UM_CREQ_REFRESH0 ? 0 : 5);
 		dg[n++] = dg_make(h, NULL, 0);
 	}
 	*first_data = n;
@@ -2401,6 +2903,7 @@ render_udp(const victim *v, const plan *pl, uint32_t serial, uint32_t id, vf_rng
 			switch (um) {
 			case UM_VER: ver = vf_chance(r, 1, 2) ? 0 : (uint8_t) (2 + vf_below(r, 254)); break;
 			case UM_OPCODE: op = (uint8_t) (4 + vf_below(r, 252)); break;
+			case UM_NOHS_BADLEN: // (dialing victim: the pipe that still waits for its CACK gets it)
 			case UM_LEN_OVER: dl = (uint16_t) (pay.n + 1 + vf_below(r, 50)); break;
 			case UM_LEN_RCVMAX: dl = 65535; break;
 			case UM_LEN_UNDER: dl = (uint16_t) (pay.n > 0 ? vf_below(r, (uint32_t) pay.n) : 0); break;
@@ -2410,11 +2913,11 @@ render_udp(const victim *v, const plan *pl, uint32_t serial, uint32_t id, vf_rng
 				dg[n++] = dg_make(h, NULL, 0);
 				break;
 			case UM_CACK_UNSOL:
-				udp_hdr(h, 1, 2, v->vp->peer, 65000, 5);
+				udp_hdr(h, 1, op_other, v->vp->peer, 65000, 5);
 				dg[n++] = dg_make(h, NULL, 0);
 				break;
 			case UM_CREQ_RETYPE:
-				udp_hdr(h, 1, 1, (uint16_t) (v->vp->peer ^ 0x101), 65000, 5);
+				udp_hdr(h, 1, op_hs, (uint16_t) (v->vp->peer ^ 0x101), 65000, 5);
 				dg[n++] = dg_make(h, NULL, 0);
 				break;
 			default: break;
@@ -2431,6 +2934,15 @@ render_udp(const victim *v, const plan *pl, uint32_t serial, uint32_t id, vf_rng
 }
 
 // reference decoder for the udp transport's datagram protocol
+//
+// Dialing victim: its dialer always has a pipe for the raw peer's address
+// (waiting for the CACK, established, or - moments after a close - the next
+// attempt), and the transport queues DATA on it whatever its state; the queue
+// is handed to the socket when a CACK completes the handshake, possibly the
+// one of the NEXT session.  So every well-formed DATA datagram within the
+// limit may be delivered sooner or later; what the decoder keeps track of
+// strictly ("est") is only whether an established pipe surely exists, because
+// only then "closes that connection" can be demanded.
 static void
 decode_udp(victim *v, sess_exp *se, const dgram *dg, int n, uint32_t id, bool pipe_ok)
 {
@@ -2443,6 +2955,7 @@ decode_udp(victim *v, sess_exp *se, const dgram *dg, int n, uint32_t id, bool pi
 		uint16_t type = (uint16_t) (d[2] | (d[3] << 8)), p0 = (uint16_t) (d[4] | (d[5] << 8)), p1 = (uint16_t) (d[6] | (d[7] << 8));
 		switch (d[1]) {
 		case 1: // CREQ
+			if (v->dial) break; // refused with a DISC, the connection is not touched
 			if (!connected) {
 				if (p1 == 0) break;
 				connected = type == v->vp->peer && pipe_ok;
@@ -2452,10 +2965,19 @@ decode_udp(victim *v, sess_exp *se, const dgram *dg, int n, uint32_t id, bool pi
 				se->closeexp = CE_SOFT;
 			}
 			break;
+		case 2: // CACK
+			if (!v->dial) break; // nothing at a listener
+			if (type != v->vp->peer || p1 == 0) {
+				connected    = false;
+				se->closeexp = CE_SOFT;
+			} else {
+				connected = pipe_ok;
+			}
+			break;
 		case 3: connected = false; break;
 		case 0: {
 			size_t avail = dg[i].n - 8;
-			if (!connected) {
+			if (!connected && !v->dial) {
 				// remember it so that a delivery can be explained
 				if (p0 <= avail) {
 					se_add_payload(v, se, &store, d + 8, p0, id, true);
@@ -2463,8 +2985,8 @@ decode_udp(victim *v, sess_exp *se, const dgram *dg, int n, uint32_t id, bool pi
 				break;
 			}
 			if (p0 > avail || p0 > v->efflimit) {
-				connected    = false;
-				se->closeexp = CE_HARD;
+				if (connected) se->closeexp = CE_HARD;
+				connected = false;
 				if (p0 <= avail) {
 					se_add_payload(v, se, &store, d + 8, p0, id, true);
 					se->fr[se->nfr - 1].status = FR_OVERSIZE;
@@ -2473,8 +2995,8 @@ decode_udp(victim *v, sess_exp *se, const dgram *dg, int n, uint32_t id, bool pi
 			}
 			int st = se_add_payload(v, se, &store, d + 8, p0, id, false);
 			if (st == FR_KILL) {
+				if (connected && se->closeexp == CE_NONE) se->closeexp = CE_SOFT;
 				connected = false;
-				if (se->closeexp == CE_NONE) se->closeexp = CE_SOFT;
 			}
 			break;
 		}
@@ -2510,7 +3032,43 @@ udp_drain(int fd, int ms, uint32_t *idp, bool *cack)
 	}
 }
 
-// a counter of the victim's udp listener (rcv_toobig, rcv_nomatch, ...)
+// Dialing victim: is a connection request of its dialer at hand?  The dialer
+// repeats it every 200 ms while it has no connection, and dials again after a
+// connection is lost.  What else has piled up is thrown away.
+static bool
+udp_wait_creq(victim *v, int fd)
+{
+	pclock pc;
+	bool   have = false;
+	pc_start(&pc);
+	for (;;) {
+		uint8_t            buf[2048];
+		struct sockaddr_in from;
+		socklen_t          fl = sizeof(from);
+		ssize_t            k  = recvfrom(fd, buf, sizeof(buf), 0, (struct sockaddr *) &from, &fl);
+		if (k >= 8 && buf[0] == 1 && buf[1] == 1) {
+			have = true;
+			if (!v->upeer_known) {
+				// (its source port stays the same for the dialer's lifetime)
+				if (connect(fd, (struct sockaddr *) &from, fl) != 0) vf_harness_fail("udp connect to the dialer: %s", strerror(errno));
+				v->upeer_known = true;
+			}
+			continue;
+		}
+		if (k >= 0 || errno == EINTR) continue;
+		if (have) break;
+		if (pc_ms(&pc) > 8000) return false;
+		pump(v);
+		struct pollfd p = { fd, POLLIN, 0 };
+		poll(&p, 1, 2);
+	}
+	vf_stat("dial_accepts", 1);
+	vf_stat("us_udp_wait_creq", (long) (pc_ms(&pc) * 1000));
+	v->idle_since = vf_now_ns();
+	return true;
+}
+
+// a counter of the victim's udp endpoint (rcv_toobig, rcv_nomatch, ...)
 static long
 udp_listener_stat(victim *v, const char *name)
 {
@@ -2518,7 +3076,7 @@ udp_listener_stat(victim *v, const char *name)
 	const nng_stat *ls, *st;
 	long            val = -1;
 	if (nng_stats_get(&root) != 0) return -1;
-	if ((ls = nng_stat_find_listener(root, v->l)) != NULL && (st = nng_stat_find(ls, name)) != NULL) val = (long) nng_stat_value(st);
+	if ((ls = v->dial ? nng_stat_find_dialer(root, v->d) : nng_stat_find_listener(root, v->l)) != NULL && (st = nng_stat_find(ls, name)) != NULL) val = (long) nng_stat_value(st);
 	nng_stats_free(root);
 	return val;
 }
@@ -2536,28 +3094,63 @@ run_udp_session(victim *v, plan *pl, vf_rng *r, bool do_new, bool do_spin)
 	int           um = pl->x_http;
 	v->cur_mut = pl->mut;
 
-	int fd = socket(AF_INET, SOCK_DGRAM | SOCK_CLOEXEC, 0);
-	struct sockaddr_in sa;
-	memset(&sa, 0, sizeof(sa));
-	sa.sin_family      = AF_INET;
-	sa.sin_addr.s_addr = htonl(INADDR_LOOPBACK);
-	sa.sin_port        = htons((uint16_t) v->port);
-	if (fd < 0 || connect(fd, (struct sockaddr *) &sa, sizeof(sa)) != 0) vf_harness_fail("udp socket: %s", strerror(errno));
-	fd_nonblock(fd);
+	int fd;
+	if (v->dial) {
+		// the victim's dialer asks (again and again) for a connection
+		fd = v->lfd;
+		if (!udp_wait_creq(v, fd)) {
+			no_redial(v);
+			return;
+		}
+	} else {
+		struct sockaddr_in sa;
+		fd = socket(AF_INET, SOCK_DGRAM | SOCK_CLOEXEC, 0);
+		memset(&sa, 0, sizeof(sa));
+		sa.sin_family      = AF_INET;
+		sa.sin_addr.s_addr = htonl(INADDR_LOOPBACK);
+		sa.sin_port        = htons((uint16_t) v->port);
+		if (fd < 0 || connect(fd, (struct sockaddr *) &sa, sizeof(sa)) != 0) vf_harness_fail("udp socket: %s", strerror(errno));
+		fd_nonblock(fd);
+	}
 
-	// connection request first (the id, if any, is learnt before the data is rendered)
+	// connection request (dialing victim: the answer to its request) first;
+	// the id, if any, is learnt before the data is rendered
 	uint32_t id = 0;
-	bool     creq_ok = um != UM_NOCREQ && um != UM_CREQ_TYPE && um != UM_CREQ_REFRESH0;
+	bool     creq_ok = um != UM_NOCREQ && um != UM_NOHS_BADLEN && um != UM_CREQ_TYPE && um != UM_CREQ_REFRESH0;
 	bool     sent_creq = false, cack = false, disc_seen = false;
 	size_t   creq_len = (um == UM_TRUNC_DGRAM && pl->x_dgram == 0) ? pl->x_dglen : 8;
-	if (um != UM_NOCREQ) {
+	if (um != UM_NOCREQ && um != UM_NOHS_BADLEN) {
 		uint8_t h[8];
-		udp_hdr(h, 1, 1, um == UM_CREQ_TYPE ? (uint16_t) (vp->peer ^ 0x101) : vp->peer, 65000, um == UM_CREQ_REFRESH0 ? 0 : 5);
+		udp_hdr(h, 1, v->dial ? 2 : 1, um == UM_CREQ_TYPE ? (uint16_t) (vp->peer ^ 0x101) : vp->peer, 65000, um == UM_CREQ_REFRESH0 ? 0 : 5);
 		(void) send(fd, h, creq_len, 0);
 		sent_creq = true;
 		if (creq_len < 8) creq_ok = false;
-		disc_seen = udp_drain(fd, creq_ok ? 2000 : 30, NULL, &cack);
-		if (creq_ok) vf_stat(cack ? "udp_cack_seen" : "udp_cack_missing", 1);
+		if (v->dial) {
+			// the pipe on the victim's socket is the acknowledgement
+			if (creq_ok && !slot_busy) {
+				// (the dialer asks again every 200 ms until it has its answer,
+				// and like any server this one answers again)
+				pclock hpc;
+				pc_start(&hpc);
+				while (!(cack = atomic_load(&v->pre) > pre0) && pc_ms(&hpc) < 2000) {
+					uint8_t b[64];
+					ssize_t k = recv(fd, b, sizeof(b), 0);
+					if (k >= 8 && b[0] == 1 && b[1] == 1) {
+						(void) send(fd, h, 8, 0);
+						vf_stat("udp_dial_cack_repeated", 1);
+					} else if (k < 0) {
+						pump(v);
+						vf_usleep(300);
+					}
+				}
+				vf_stat(cack ? "udp_dial_pipe_seen" : "udp_dial_pipe_missing", 1);
+			} else {
+				disc_seen = udp_drain(fd, 30, NULL, NULL);
+			}
+		} else {
+			disc_seen = udp_drain(fd, creq_ok ? 2000 : 30, NULL, &cack);
+			if (creq_ok) vf_stat(cack ? "udp_cack_seen" : "udp_cack_missing", 1);
+		}
 	}
 	PHASE("handshake");
 	if (creq_ok && cack && !slot_busy) (void) wait_atomic_ge(&v->pre, pre0 + 1, 2000, v);
@@ -2577,6 +3170,7 @@ run_udp_session(victim *v, plan *pl, vf_rng *r, bool do_new, bool do_spin)
 		if (id) vf_stat("ids_learnt", 1);
 	}
 	long toobig0   = udp_listener_stat(v, "rcv_toobig");
+	int  rem0      = atomic_load(&v->rem);
 	int first_data = 0;
 	int n          = render_udp(v, pl, se->serial, id, r, dg, &first_data);
 	// the CREQ went out already (or was cut): the decoder sees what was sent
@@ -2628,12 +3222,21 @@ run_udp_session(victim *v, plan *pl, vf_rng *r, bool do_new, bool do_spin)
 			vf_stat("udp_oversize_probe_repeated", 1);
 		}
 		vclosed = disc_seen || rejected;
+		if (rejected && !disc_seen) {
+			// the counter alone does not show that the connection is gone: its
+			// pipe must leave the socket (removals since the offending datagram)
+			if (!wait_atomic_ge(&v->rem, rem0 + 1, 5000, v) && !starved()) {
+				snprintf(key, sizeof(key), "C11/oversize-not-closed/%s/%s", vtn(v), vp->name);
+				vf_violation(key, "limit %zu: the listener counted the oversize datagram as rejected but no pipe has left the socket 5 s later and no DISC was seen (mutation %s)", v->efflimit, pl->mut);
+				vclosed = 0;
+			}
+		}
 		if (vclosed) {
-			vf_stat("oversize_closed", 1);
+			oversize_closed_stat(v);
 		} else if (starved()) {
-			vf_stat("starved_observations_discarded", 1);
+			note_starved();
 		} else {
-			snprintf(key, sizeof(key), "C11/oversize-not-closed/%s/%s", tnames[v->tran], vp->name);
+			snprintf(key, sizeof(key), "C11/oversize-not-closed/%s/%s", vtn(v), vp->name);
 			vf_violation(key, "limit %zu: no DISC and no rejected datagram counted by the listener after three rounds of a DATA datagram whose length field is beyond the limit or the datagram (mutation %s)", v->efflimit, pl->mut);
 		}
 	} else if (se->closeexp == CE_SOFT) {
@@ -2663,7 +3266,9 @@ run_udp_session(victim *v, plan *pl, vf_rng *r, bool do_new, bool do_spin)
 	// leaving without DISC keeps a dead pipe on the victim for the keep-alive
 	// time; sockets that distribute their own sends over all pipes would
 	// starve the bystanders, so only receiving protocols get such peers
-	bool vanish = (um == UM_NODISC || pl->endact == END_RST) && !vp->single && (vp->ck == CK_C2V_1W || vp->ck == CK_C2V_RR) && v->lingering < 6;
+	// (a dialing victim whose peer vanishes keeps its pipe for the keep-alive time
+	// and does not dial meanwhile: the raw server always says good-bye)
+	bool vanish = !v->dial && (um == UM_NODISC || pl->endact == END_RST) && !vp->single && (vp->ck == CK_C2V_1W || vp->ck == CK_C2V_RR) && v->lingering < 6;
 	if (!vanish) {
 		uint8_t h[8];
 		udp_hdr(h, 1, 3, vp->peer, 0, 0);
@@ -2671,7 +3276,7 @@ run_udp_session(victim *v, plan *pl, vf_rng *r, bool do_new, bool do_spin)
 	} else {
 		v->vanished = true;
 	}
-	close(fd);
+	if (!v->dial) close(fd);
 	PHASE("endact");
 	settle(v, 5000);
 	v->vanished = false;
@@ -2736,8 +3341,8 @@ pick_plan(victim *v, plan *pl, vf_rng *r)
 			uint32_t x = vf_below(r, 100);
 			if (x < 25) {
 				plan_valid(v, pl, r, 3);
-				pl->x_http = 1 + (int) vf_below(r, HX_N - 1);
-				snprintf(pl->mut, sizeof(pl->mut), "%s", hxnames[pl->x_http]);
+				pl->x_http = 1 + (int) vf_below(r, (v->dial ? RX_N : HX_N) - 1);
+				snprintf(pl->mut, sizeof(pl->mut), "%s", v->dial ? rxnames[pl->x_http] : hxnames[pl->x_http]);
 				return;
 			}
 			if (x < 60) {
@@ -2774,7 +3379,7 @@ pick_plan(victim *v, plan *pl, vf_rng *r)
 					pl->nfr = 200;
 					for (int i = 3; i < pl->nfr; i++) pl->fr[i] = pl->fr[i % 3];
 				}
-				snprintf(pl->mut, sizeof(pl->mut), "%s", umnames[pl->x_http]);
+				snprintf(pl->mut, sizeof(pl->mut), "%s", v->dial ? dumnames[pl->x_http] : umnames[pl->x_http]);
 				return;
 			}
 			if (plan_mutate(v, pl, r, udp_generic[vf_below(r, NEL(udp_generic))])) return;
@@ -2786,10 +3391,30 @@ pick_plan(victim *v, plan *pl, vf_rng *r)
 			else if (x < 48) m = M_LEN_0 + (int) vf_below(r, M_LEN_LESS - M_LEN_0 + 1);
 			else if (x < 82) m = hdr_mut_for(v, r);
 			else if (x < 86 && v->tran == T_IPC) m = M_IPC_TYPE0 + (int) vf_below(r, 3);
-			else m = (int[]){ M_VALID, M_GARBAGE, M_FLOOD_EMPTY, M_FLOOD_SMALL, M_BIG_VALID, M_TRUNC_RANDOM, M_TRUNC_RANDOM }[vf_below(r, 7)];
+			else m = (int[]){ M_VALID, M_GARBAGE, M_FLOOD_EMPTY, M_FLOOD_SMALL, M_BIG_VALID, M_TRUNC_RANDOM, M_TRUNC_RANDOM, M_HALFOPEN, M_HALFOPEN }[vf_below(r, 9)];
 			if (plan_mutate(v, pl, r, m)) return;
 		}
 	}
+}
+
+// name under which the victim's peer protocol is asked for by a websocket dialer
+static const char *
+peer_wsname(const vproto *vp)
+{
+	switch (vp->peer) {
+	case 0x10: return "pair";
+	case 0x11: return "pair1";
+	case 0x20: return "pub";
+	case 0x21: return "sub";
+	case 0x30: return "req";
+	case 0x31: return "rep";
+	case 0x50: return "push";
+	case 0x51: return "pull";
+	case 0x62: return "surveyor";
+	case 0x63: return "respondent";
+	case 0x70: return "bus";
+	}
+	return "x";
 }
 
 // number of cut positions of the valid session used by the truncation sweep
@@ -2814,7 +3439,13 @@ truncation_space(victim *v, vf_rng *r, long idx)
 		return n - 1;
 	}
 	if (v->tran == T_WS) {
-		render_http(v, 0, &pr, &b);
+		if (v->dial) {
+			char sub[64];
+			snprintf(sub, sizeof(sub), "%s.sp.nanomsg.org", peer_wsname(v->vp));
+			render_http_response(0, "AAAAAAAAAAAAAAAAAAAAAAAA", sub, &pr, &b);
+		} else {
+			render_http(v, 0, &pr, &b);
+		}
 		render_ws_frames(v, &tp, 1, 0, &pr, &b);
 	} else {
 		render_stream(v, &tp, 1, 0, &pr, &b);
@@ -2866,21 +3497,199 @@ run_session(victim *v, plan *pl, vf_rng *r, bool do_new, bool do_spin)
 }
 
 static void
-open_with_control(victim *v, const vproto *vp, int tran, size_t recvmax, int ttl, bool with_ctl)
+open_with_control(victim *v, const vproto *vp, int tran, size_t sockmax, size_t recvmax, int ttl, bool with_ctl, bool dial)
 {
-	victim_open(v, vp, tran, recvmax, ttl);
+	victim_open(v, vp, tran, sockmax, recvmax, ttl, dial);
 	if (with_ctl) {
-		if (!ctl_connect(v, 0)) vf_harness_fail("control client cannot connect to a fresh %s/%s victim", tnames[tran], vp->name);
-		if (!exchange(v, 0)) vf_harness_fail("control exchange fails on a fresh %s/%s victim", tnames[tran], vp->name);
+		if (!ctl_connect(v, 0)) vf_harness_fail("control client cannot connect to a fresh %s/%s victim", vtn(v), vp->name);
+		if (!exchange(v, 0)) vf_harness_fail("control exchange fails on a fresh %s/%s victim", vtn(v), vp->name);
 		ctl_mark_established(&v->ctl[0]);
 	}
+	vf_class("victim/%s/%s/ttl=%d/rm=%zu/%s", vtn(v), vp->name, v->ttl, recvmax, v->limsrc);
+}
+
+// what every victim is asked before it goes
+static void
+victim_finish(victim *v)
+{
+	if (atomic_load(&v->pipe_limit_bad)) {
+		char key[160];
+		snprintf(key, sizeof(key), "C11/limit-not-applied/%s/pipe", tnames[v->tran]);
+		vf_violation(key, "%s/%s: a pipe of the %s reports NNG_OPT_RECVMAXSZ %lu, the limit in force for it is %lu (source %s, socket %zu)", vtn(v), v->vp->name, v->dial ? "dialer" : "listener",
+		    atomic_load(&v->pipe_limit_got), atomic_load(&v->pipe_limit_want), v->limsrc, v->sockmax);
+	}
+	vf_stat("limit_checks_pipe", atomic_load(&v->pipe_limit_checked));
+	// (the socket's "pipes" statistic is what settle() goes by)
+	if (vf_pipe_count(v->s) < live_ctl(v)) {
+		char k[64];
+		snprintf(k, sizeof(k), "pipes_stat_below_live_%s", vtn(v));
+		vf_stat(k, 1);
+	}
+	if (!v->wedged) {
+		// whatever a session left behind (a descriptor still registered, a timer
+		// that re-arms at once) has had time to show: every victim is looked at
+		// once more before it is closed
+		if (g_trunc) spin_window(v, "victim-end");
+		else spin_probe(v, "victim-end", 40);
+	}
+	victim_close(v);
 }
 
 static int
 pick_tran(vf_rng *r)
 {
 	uint32_t x = vf_below(r, 100);
-	return x < 40 ? T_SOCKFD : x < 57 ? T_TCP : x < 74 ? T_IPC : x < 88 ? T_WS : T_UDP;
+	return x < 28 ? T_SOCKFD : x < 48 ? T_TCP : x < 68 ? T_IPC : x < 85 ? T_WS : T_UDP;
+}
+
+// another of the three limits
+static size_t
+other_limit(vf_rng *r, size_t not_this)
+{
+	size_t c[3];
+	int    n = 0;
+	for (int i = 0; i < 3; i++) {
+		if (recvmaxes[i] != not_this) c[n++] = recvmaxes[i];
+	}
+	return c[vf_below(r, (uint32_t) n)];
+}
+
+// ---------------------------------------------------------------- handshakes that never finish
+// One socket with a tcp, an ipc and a websocket listener lives beside the
+// victims of this worker.  Eight raw connections per listener send the first
+// 0..7 bytes of a valid SP handshake (websocket: a valid upgrade request cut
+// at eight places) and then nothing.  The library bounds a negotiation (10 s;
+// websocket 2 s), so every one of them must have been closed by the library
+// when they are looked at no less than 25 s later (then another 10 s on the
+// progress clock are waited).  Without the bound a peer that connects and
+// goes silent keeps a descriptor and a pipe for ever.
+#define HELD_PER 8
+static struct {
+	bool         open;
+	nng_socket   s;
+	char         ipcpath[120];
+	int          fd[3 * HELD_PER];
+	int          tran[3 * HELD_PER];
+	size_t       sent[3 * HELD_PER];
+	int          nfd;
+	uint64_t     t0;
+} H;
+
+static void
+held_open(vf_rng *r)
+{
+	nng_listener l;
+	int          rv, port_tcp = 0, port_ws = 0;
+	char         url[160];
+	uint8_t      hello[8];
+	bbuf         req = { 0 };
+	victim       fake;
+	memset(&H, 0, sizeof(H));
+	memset(&fake, 0, sizeof(fake));
+	if ((rv = nng_rep0_open(&H.s)) != 0) vf_harness_fail("held: open: %s", nng_strerror(rv));
+	if ((rv = nng_listener_create(&l, H.s, "tcp://127.0.0.1:0")) != 0 || (rv = nng_listener_start(l, 0)) != 0 || (rv = nng_listener_get_int(l, NNG_OPT_BOUND_PORT, &port_tcp)) != 0) vf_harness_fail("held: tcp: %s", nng_strerror(rv));
+	if ((rv = nng_listener_create(&l, H.s, "ws://127.0.0.1:0/c11")) != 0 || (rv = nng_listener_start(l, 0)) != 0 || (rv = nng_listener_get_int(l, NNG_OPT_BOUND_PORT, &port_ws)) != 0) vf_harness_fail("held: ws: %s", nng_strerror(rv));
+	snprintf(H.ipcpath, sizeof(H.ipcpath), "/tmp/vf-c11-%d-held.sock", (int) getpid());
+	snprintf(url, sizeof(url), "ipc://%s", H.ipcpath);
+	if ((rv = nng_listen(H.s, url, NULL, 0)) != 0) vf_harness_fail("held: ipc: %s", nng_strerror(rv));
+	vf_sp_hello(hello, 0x30);
+	fake.vp   = &vprotos[0]; // rep
+	fake.port = port_ws;
+	render_http(&fake, HX_NONE, r, &req);
+	for (int t = 0; t < 3; t++) {
+		for (int k = 0; k < HELD_PER; k++) {
+			int    tran = t == 0 ? T_TCP : t == 1 ? T_IPC : T_WS;
+			int    fd   = tran == T_IPC ? vf_unix_connect(H.ipcpath, 5000) : vf_tcp_connect((uint16_t) (tran == T_TCP ? port_tcp : port_ws), 5000);
+			size_t n    = (size_t) k;
+			if (fd < 0) vf_harness_fail("held: connect: %s", strerror(errno));
+			fd_nonblock(fd);
+			if (tran == T_WS) {
+				// nothing, one byte, inside the request line, ..., all but the last byte
+				size_t at[HELD_PER] = { 0, 1, 9, 20, req.n / 2, req.n - 4, req.n - 2, req.n - 1 };
+				n = at[k];
+				if (n > 0 && write(fd, req.p, n) != (ssize_t) n) vf_harness_fail("held: write");
+			} else if (n > 0 && write(fd, hello, n) != (ssize_t) n) {
+				vf_harness_fail("held: write");
+			}
+			H.fd[H.nfd]   = fd;
+			H.tran[H.nfd] = tran;
+			H.sent[H.nfd] = n;
+			H.nfd++;
+		}
+	}
+	free(req.p);
+	H.t0   = vf_now_ns();
+	H.open = true;
+}
+
+// true when the held connections have been dealt with
+static bool
+held_check(bool final)
+{
+	if (!H.open) return true;
+	uint64_t need = 25000000000ULL;
+	if (vf_now_ns() - H.t0 < need) {
+		if (!final) return false;
+		// the worker has run out of cases early: wait for the time to pass
+		while (vf_now_ns() - H.t0 < need) {
+			vf_watchdog(120);
+			vf_msleep(50);
+		}
+		vf_stat("held_handshakes_waited_for", 1);
+	}
+	pclock pc;
+	bool   closed[3 * HELD_PER] = { false };
+	int    nclosed = 0;
+	pc_start(&pc);
+	atomic_store(&tick_max_over_ns, 0);
+	for (;;) {
+		for (int i = 0; i < H.nfd; i++) {
+			uint8_t tmp[512];
+			if (closed[i]) continue;
+			for (;;) {
+				ssize_t n = read(H.fd[i], tmp, sizeof(tmp)); // (the listener's own handshake bytes come first)
+				if (n > 0) continue;
+				if (n == 0 || (errno != EAGAIN && errno != EINTR)) {
+					closed[i] = true;
+					nclosed++;
+				}
+				break;
+			}
+		}
+		int sp_open = 0;
+		for (int i = 0; i < H.nfd; i++) sp_open += !closed[i] && H.tran[i] != T_WS;
+		if (nclosed == H.nfd || pc_ms(&pc) > 10000 || (sp_open == 0 && pc_ms(&pc) > 300)) break;
+		vf_msleep(5);
+	}
+	vf_stat("held_handshakes", H.nfd);
+	vf_stat("held_handshakes_expired", nclosed);
+	for (int i = 0; i < H.nfd; i++) {
+		if (closed[i] && H.tran[i] != T_WS) vf_stat("held_sp_handshakes_expired", 1);
+	}
+	for (int i = 0; i < H.nfd; i++) {
+		if (!closed[i] && H.tran[i] == T_WS) {
+			// The property names the bound for the SP negotiation only; the
+			// HTTP server in front of the websocket is C16's: observed, not judged.
+			vf_stat("held_ws_requests_still_open", 1);
+			vf_class("held-handshake-kept-open/ws/%zu-bytes", H.sent[i]);
+		} else if (!closed[i]) {
+			if (starved()) {
+				note_starved();
+			} else {
+				char key[160];
+				snprintf(key, sizeof(key), "C11/handshake-never-times-out/%s", tnames[H.tran[i]]);
+				vf_violation(key, "a %s connection that sent %zu bytes of its handshake and then nothing is still open %.0f s later (the negotiation is bounded to %s): silent peers keep descriptors and pipes for ever",
+				    tnames[H.tran[i]], H.sent[i], (double) (vf_now_ns() - H.t0) / 1e9, H.tran[i] == T_WS ? "2 s" : "10 s");
+			}
+		} else {
+			vf_class("held-handshake-expired/%s/%zu-bytes", tnames[H.tran[i]], H.sent[i]);
+		}
+		close(H.fd[i]);
+	}
+	nng_socket_close(H.s);
+	unlink(H.ipcpath);
+	H.open = false;
+	return true;
 }
 
 int
@@ -2892,7 +3701,7 @@ main(int argc, char **argv)
 	nng_log_set_level(NNG_LOG_DEBUG);
 	ticker_start();
 	vf_rng r;
-	long   ncases = 0;
+	long   ncases = 0, last_fini = 0;
 	static victim V;
 	static plan   pl;
 	int only_tran = -1;
@@ -2903,6 +3712,8 @@ main(int argc, char **argv)
 		for (int t = 0; t < T_N; t++) if (!strcmp(colon + 1, tnames[t])) only_tran = t;
 	}
 	bool trunc = !strncmp(mode, "trunc", 5);
+	const char *fdial = getenv("C11_FORCE_DIAL"); // debugging aid: 0 / 1
+	g_trunc = trunc;
 
 	if (trunc) {
 		// every byte offset of a valid session x {FIN, RST} x transport x protocol
@@ -2913,13 +3724,17 @@ main(int argc, char **argv)
 					if (only_tran >= 0 && t != only_tran) continue;
 					// the two end actions of one (transport, protocol) go to the same worker
 					if (((idx >> 1) % vf_nshards) != vf_shard) continue;
+					uint64_t h = vf_mix64(vf_seed ^ (uint64_t) (t * 64 + p));
 					if (vf_tier == 0) {
 						// quick: one end action per (transport, protocol), the
 						// datagram / websocket sweeps for a third of the protocols;
 						// which ones depends on the (worker's) seed
-						uint64_t h = vf_mix64(vf_seed ^ (uint64_t) (t * 64 + p));
 						if (vf_only < 0 && (int) (h & 1) != e) continue;
 						if (vf_only < 0 && (t == T_UDP || t == T_WS) && ((h >> 1) % 3) != 0) continue;
+						// (a single-peer victim on udp never gets its control client
+						// replaced, and the transport's one-message lag piles up over
+						// a hundred sessions: two minutes for one victim; thorough only)
+						if (vf_only < 0 && t == T_UDP && vprotos[p].single) continue;
 					}
 					if (!vf_want_case(idx)) continue;
 					const vproto *vp = &vprotos[p];
@@ -2927,13 +3742,19 @@ main(int argc, char **argv)
 					size_t rm  = recvmaxes[vf_below(&r, 3)];
 					int    ttl = (int[]){ 1, 2, 3, 8, 15 }[vf_below(&r, 5)];
 					bool   wc  = !vp->single || vf_chance(&r, 1, 3);
-					vf_case_begin(idx, "trunc tran=%s proto=%s end=%s recvmax=%zu ttl=%d ctl=%d", tnames[t], vp->name, endnames[e], rm, ttl, wc);
+					// who connects to whom: in quick one of the two per (transport,
+					// protocol), in thorough the two end actions get one each
+					bool   dial = t != T_SOCKFD && (vf_tier == 0 ? ((h >> 8) & 1) != 0 : (((h >> 8) & 1) != 0) == (e == 0));
+					size_t sm   = vf_chance(&r, 1, 3) ? other_limit(&r, rm) : rm;
+					if (fdial) dial = t != T_SOCKFD && atoi(fdial) != 0;
+					vf_case_begin(idx, "trunc tran=%s proto=%s end=%s recvmax=%zu sockmax=%zu ttl=%d ctl=%d dial=%d", tnames[t], vp->name, endnames[e], rm, sm, ttl, wc, dial);
 					vf_watchdog(120);
-					open_with_control(&V, vp, t, rm, ttl, wc);
+					open_with_control(&V, vp, t, sm, rm, ttl, wc, dial);
 					long maxoff = truncation_space(&V, &r, idx);
 					long step   = 1;
+					long nth    = 0;
 					if (t == T_WS && vf_tier == 0) step = 3; // ws sessions are > 200 bytes: sampled in quick
-					for (long off = (t == T_WS && vf_tier == 0) ? (long) vf_below(&r, 3) : 0; off <= maxoff; off += step) {
+					for (long off = (t == T_WS && vf_tier == 0) ? (long) vf_below(&r, 3) : 0; off <= maxoff; off += step, nth++) {
 						vf_rng pr;
 						vf_rng_seed(&pr, vf_seed, (uint64_t) idx * 7919 + 1);
 						plan_valid(&V, &pl, &pr, 3);
@@ -2944,10 +3765,14 @@ main(int argc, char **argv)
 						snprintf(pl.mut, sizeof(pl.mut), "trunc");
 						run_session(&V, &pl, &pr, (off % 8) == 3, false);
 						vf_stat("trunc_offsets", 1);
+						if (V.dial) vf_stat("trunc_offsets_dial", 1);
 						vf_watchdog(120);
 						if (V.wedged) break;
+						// a connection cut inside a length word or a body must not
+						// leave anything behind that keeps a thread busy
+						if ((nth & 15) == 7) spin_probe(&V, "after-cut", 30);
 					}
-					victim_close(&V);
+					victim_finish(&V);
 					vf_stat("cases", 1);
 					if ((++ncases & 15) == 0) {
 						vf_nng_fini("C11");
@@ -2957,6 +3782,11 @@ main(int argc, char **argv)
 			}
 		}
 	} else {
+		bool with_held = vf_only < 0 && vf_from == 0 && vf_cases >= 8 && only_tran < 0 && getenv("C11_NO_HELD") == NULL;
+		if (with_held) {
+			vf_rng_seed(&r, vf_seed, 0x48454c44);
+			held_open(&r);
+		}
 		for (long idx = 0; idx < vf_cases; idx++) {
 			if (!vf_want_case(idx)) continue;
 			vf_rng_seed(&r, vf_seed, (uint64_t) idx);
@@ -2970,25 +3800,54 @@ main(int argc, char **argv)
 			bool          wc  = !vp->single || vf_chance(&r, 1, 3);
 			int           nsess = vf_tier ? 24 : 16;
 			bool          dribble = rm != (1u << 20) && vf_chance(&r, 1, 4);
-			vf_case_begin(idx, "mut tran=%s proto=%s recvmax=%zu ttl=%d ctl=%d dribble=%d", tnames[t], vp->name, rm, ttl, wc, dribble);
+			bool          dial = t != T_SOCKFD && vf_chance(&r, 2, 5);
+			// the limit in force set on the endpoint, the socket says something else
+			size_t        sm  = vf_chance(&r, 1, 3) ? other_limit(&r, rm) : rm;
+			// one change on the live endpoint half way (not to 1 MiB while the
+			// library reads a few bytes at a time)
+			size_t        rm2 = vf_chance(&r, 1, 3) ? other_limit(&r, rm) : rm;
+			if (dribble && rm2 == (1u << 20)) rm2 = rm;
+			if (fdial) dial = t != T_SOCKFD && atoi(fdial) != 0;
+			vf_case_begin(idx, "mut tran=%s proto=%s recvmax=%zu sockmax=%zu then=%zu ttl=%d ctl=%d dribble=%d dial=%d", tnames[t], vp->name, rm, sm, rm2, ttl, wc, dribble, dial);
 			vf_watchdog(120);
-			open_with_control(&V, vp, t, rm, ttl, wc);
+			// a reaper that is late: the next connection (the dialer's next attempt,
+			// the next accept) meets pipes that are still being taken apart
+			bool          lazy_reaper = vf_chance(&r, 1, 3) && getenv("C11_NO_LAZY") == NULL;
+			open_with_control(&V, vp, t, sm, rm, ttl, wc, dial);
+			if (lazy_reaper) {
+				vf_pt_target(NNI_VP_PIPE_REAP_BEFORE_CLOSE, 500, 1000, 9000);
+				vf_stat("victims_with_late_reaper", 1);
+			}
 			if (dribble) vf_io_plan(VF_IO_FULL, 0, VF_IO_RANDOM, 1 + vf_below(&r, 12), vf_rand(&r));
 			for (int j = 0; j < nsess; j++) {
+				if (j == nsess / 2 && rm2 != rm) {
+					victim_change_limit(&V, rm2);
+					if (V.recvmax == rm2) vf_class("victim/%s/%s/ttl=%d/rm=%zu/%s", vtn(&V), vp->name, V.ttl, rm2, V.limsrc);
+				}
 				pick_plan(&V, &pl, &r);
 				run_session(&V, &pl, &r, vf_chance(&r, 1, 3), vf_chance(&r, 1, vf_tier ? 24 : 40) || getenv("C11_SPIN_ALL") != NULL);
 				vf_watchdog(120);
 				if (V.wedged) break;
 			}
 			vf_io_plan(VF_IO_FULL, 0, VF_IO_FULL, 0, 0);
-			victim_close(&V);
+			vf_pt_off();
+			victim_finish(&V);
 			vf_stat("cases", 1);
-			if ((++ncases & 15) == 0) {
+			++ncases;
+			if (with_held && held_check(false)) with_held = false;
+			// (the library cannot be shut down while the held connections wait)
+			if (!H.open && ncases - last_fini >= 16) {
+				last_fini = ncases;
 				vf_nng_fini("C11");
 				vf_nng_init(4, 2, 2);
 			}
 		}
+		if (with_held) (void) held_check(true);
 	}
 	vf_nng_fini("C11");
+	// a worker that was not being scheduled now and then has thrown evidence
+	// away; more than 2 % of its sessions makes the run inconclusive (floor on
+	// the sum over the workers)
+	vf_stat("starvation_margin", g_sessions - 50 * g_starved);
 	return vf_finish();
 }
